@@ -1,1 +1,1843 @@
 import CaddyModel.C11.Spec
+namespace CaddyModel.C11
+open List
+
+theorem extract_perm {κ α} [DecidableEq κ] {k : κ} :
+    ∀ {m : List (κ × α)} {v m'}, extract k m = some (v, m') → m.Perm ((k, v) :: m')
+  | [], v, m', h => by simp [extract] at h
+  | (k', w) :: rest, v, m', h => by
+    unfold extract at h
+    split at h
+    · rename_i hk; cases h; subst hk; exact Perm.refl _
+    · cases hh : extract k rest with
+      | none => simp [hh] at h
+      | some p =>
+        obtain ⟨v', rest'⟩ := p
+        simp [hh] at h
+        obtain ⟨rfl, rfl⟩ := h
+        have ih := extract_perm hh
+        exact (Perm.cons _ ih).trans (Perm.swap _ _ _)
+
+theorem pull_perm {κ α} [DecidableEq κ] : ∀ (π : List κ) (m : List (κ × α)), (pull π m).Perm m
+  | [], m => Perm.refl _
+  | k :: ks, m => by
+    unfold pull
+    split
+    · rename_i v m' h
+      exact (Perm.cons _ (pull_perm ks m')).trans (extract_perm h).symm
+    · exact pull_perm ks m
+
+theorem mem_pull {κ α} [DecidableEq κ] {π : List κ} {m : List (κ × α)} {x} : x ∈ pull π m ↔ x ∈ m :=
+  (pull_perm π m).mem_iff
+
+theorem pullKeys_perm {κ} [DecidableEq κ] (π l : List κ) : (pullKeys π l).Perm l := by
+  unfold pullKeys
+  have h := (pull_perm π (l.map fun k => (k, ()))).map (·.1)
+  simpa [Function.comp_def] using h
+
+theorem mem_pullKeys {κ} [DecidableEq κ] {π l : List κ} {x} : x ∈ pullKeys π l ↔ x ∈ l :=
+  (pullKeys_perm π l).mem_iff
+
+theorem mem_indexed {α} : ∀ {l : List α} {n i x}, (i, x) ∈ indexed l n → x ∈ l
+  | [], _, _, _, h => by simp [indexed] at h
+  | y :: ys, n, i, x, h => by
+    simp [indexed] at h
+    rcases h with ⟨_, rfl⟩ | h
+    · simp
+    · exact List.mem_cons_of_mem _ (mem_indexed h)
+
+theorem exists_indexed {α} : ∀ {l : List α} {x} (n), x ∈ l → ∃ i, (i, x) ∈ indexed l n
+  | y :: ys, x, n, h => by
+    rcases List.mem_cons.mp h with rfl | h
+    · exact ⟨n, by simp [indexed]⟩
+    · obtain ⟨i, hi⟩ := exists_indexed (n + 1) h
+      exact ⟨i, by simp [indexed, hi]⟩
+
+
+
+/-! ### insertion-ordered maps -/
+
+/-- `v ∈ m[k]` -/
+def assocMem {κ α} (m : List (κ × List α)) (k : κ) (v : α) : Prop := ∃ vs, (k, vs) ∈ m ∧ v ∈ vs
+
+theorem assocMem_nil {κ α} {k : κ} {v : α} : ¬ assocMem ([] : List (κ × List α)) k v := by
+  rintro ⟨vs, h, _⟩; simp at h
+
+theorem assocMem_append {κ α} [DecidableEq κ] {k k' : κ} {v v' : α} :
+    ∀ {m : List (κ × List α)}, assocMem (assocAppend m k v) k' v' ↔ assocMem m k' v' ∨ (k' = k ∧ v' = v)
+  | [] => by
+    simp [assocAppend, assocMem]
+    constructor
+    · rintro ⟨vs, ⟨rfl, rfl⟩, h⟩; simp at h; exact ⟨rfl, h⟩
+    · rintro ⟨rfl, rfl⟩; exact ⟨[v'], ⟨rfl, rfl⟩, by simp⟩
+  | (k0, vs0) :: rest => by
+    unfold assocAppend
+    split
+    · rename_i hk
+      subst hk
+      constructor
+      · rintro ⟨vs, hm, hv⟩
+        rcases List.mem_cons.mp hm with h | h
+        · cases h
+          rcases List.mem_append.mp hv with h | h
+          · exact Or.inl ⟨vs0, by simp, h⟩
+          · simp at h; exact Or.inr ⟨rfl, h⟩
+        · exact Or.inl ⟨vs, List.mem_cons_of_mem _ h, hv⟩
+      · rintro (⟨vs, hm, hv⟩ | ⟨rfl, rfl⟩)
+        · rcases List.mem_cons.mp hm with h | h
+          · cases h; exact ⟨vs0 ++ [v], by simp, by simp [hv]⟩
+          · exact ⟨vs, List.mem_cons_of_mem _ h, hv⟩
+        · exact ⟨vs0 ++ [v'], by simp, by simp⟩
+    · have ih := @assocMem_append κ α _ k k' v v' rest
+      constructor
+      · rintro ⟨vs, hm, hv⟩
+        rcases List.mem_cons.mp hm with h | h
+        · cases h; exact Or.inl ⟨vs0, by simp, hv⟩
+        · rcases ih.mp ⟨vs, h, hv⟩ with ⟨vs', hm', hv'⟩ | h
+          · exact Or.inl ⟨vs', List.mem_cons_of_mem _ hm', hv'⟩
+          · exact Or.inr h
+      · rintro (⟨vs, hm, hv⟩ | h)
+        · rcases List.mem_cons.mp hm with h | h
+          · cases h; exact ⟨vs0, by simp, hv⟩
+          · obtain ⟨vs', hm', hv'⟩ := ih.mpr (Or.inl ⟨vs, h, hv⟩)
+            exact ⟨vs', List.mem_cons_of_mem _ hm', hv'⟩
+        · obtain ⟨vs', hm', hv'⟩ := ih.mpr (Or.inr h)
+          exact ⟨vs', List.mem_cons_of_mem _ hm', hv'⟩
+
+theorem hasKey_append {κ α} [DecidableEq κ] {k k' : κ} {v : α} :
+    ∀ {m : List (κ × List α)}, hasKey (assocAppend m k v) k' = (hasKey m k' || decide (k' = k))
+  | [] => by
+    by_cases h : k = k'
+    · subst h; simp [assocAppend, hasKey]
+    · have h' : ¬ k' = k := fun e => h e.symm
+      simp [assocAppend, hasKey, h, h']
+  | (k0, vs0) :: rest => by
+    unfold assocAppend
+    split
+    · rename_i hk; subst hk
+      simp only [hasKey, List.any_cons]
+      by_cases h : k0 = k'
+      · subst h; simp
+      · have h' : ¬ k' = k0 := fun e => h e.symm
+        simp [h, h']
+    · have ih := @hasKey_append κ α _ k k' v rest
+      simp only [hasKey, List.any_cons] at ih ⊢
+      rw [ih, Bool.or_assoc]
+
+/-- every key has a non-empty value list -/
+def NonEmptyVals {κ α} (m : List (κ × List α)) : Prop := ∀ k vs, (k, vs) ∈ m → vs ≠ []
+
+theorem nonEmptyVals_append {κ α} [DecidableEq κ] {k : κ} {v : α} :
+    ∀ {m : List (κ × List α)}, NonEmptyVals m → NonEmptyVals (assocAppend m k v)
+  | [], _ => by intro k' vs h; simp [assocAppend] at h; simp [h.2]
+  | (k0, vs0) :: rest, hm => by
+    unfold assocAppend
+    split
+    · intro k' vs h
+      rcases List.mem_cons.mp h with h | h
+      · cases h; simp
+      · exact hm k' vs (List.mem_cons_of_mem _ h)
+    · intro k' vs h
+      rcases List.mem_cons.mp h with h | h
+      · cases h; exact hm k0 vs0 (by simp)
+      · exact nonEmptyVals_append (fun a b c => hm a b (List.mem_cons_of_mem _ c)) k' vs h
+
+theorem hasKey_iff {κ α} [DecidableEq κ] {m : List (κ × α)} {k : κ} : hasKey m k = true ↔ ∃ v, (k, v) ∈ m := by
+  simp only [hasKey, List.any_eq_true, decide_eq_true_eq]
+  constructor
+  · rintro ⟨⟨k', v⟩, h, rfl⟩; exact ⟨v, h⟩
+  · rintro ⟨v, h⟩; exact ⟨(k, v), h, rfl⟩
+
+theorem assocMem_of_hasKey {κ α} [DecidableEq κ] {m : List (κ × List α)} {k : κ}
+    (hne : NonEmptyVals m) (h : hasKey m k = true) : ∃ v, assocMem m k v := by
+  obtain ⟨vs, hm⟩ := hasKey_iff.mp h
+  cases hvs : vs with
+  | nil => exact absurd hvs (hne k vs hm)
+  | cons v rest => exact ⟨v, vs, hm, by simp [hvs]⟩
+
+theorem hasKey_of_assocMem {κ α} [DecidableEq κ] {m : List (κ × List α)} {k : κ} {v}
+    (h : assocMem m k v) : hasKey m k = true := by
+  obtain ⟨vs, hm, _⟩ := h
+  exact hasKey_iff.mpr ⟨vs, hm⟩
+
+
+
+/-! ### the main loop: names -/
+
+theorem mem_addSet {l : List Name} {d x : Name} : x ∈ addSet l d ↔ x ∈ l ∨ x = d := by
+  unfold addSet
+  split
+  · rename_i h
+    have : d ∈ l := by simpa using h
+    constructor
+    · exact Or.inl
+    · rintro (h | rfl) <;> assumption
+  · simp
+
+theorem mem_foldl_addSet {x : Name} : ∀ {ds l : List Name}, x ∈ ds.foldl addSet l ↔ x ∈ l ∨ x ∈ ds
+  | [], l => by simp
+  | d :: ds, l => by
+    simp only [List.foldl_cons, List.mem_cons]
+    rw [mem_foldl_addSet, mem_addSet]
+    constructor
+    · rintro ((h | h) | h)
+      · exact Or.inl h
+      · exact Or.inr (Or.inl h)
+      · exact Or.inr (Or.inr h)
+    · rintro (h | h | h)
+      · exact Or.inl (Or.inl h)
+      · exact Or.inl (Or.inr h)
+      · exact Or.inr h
+
+theorem mem_domainSet_aux (skip : List Name) {x : Name} :
+    ∀ {hs acc : List Name},
+      x ∈ hs.foldl (fun acc d => if skip.contains d then acc else addSet acc d) acc ↔
+        x ∈ acc ∨ (x ∈ hs ∧ x ∉ skip)
+  | [], acc => by simp
+  | h :: hs, acc => by
+    simp only [List.foldl_cons]
+    rw [mem_domainSet_aux skip]
+    by_cases hsk : skip.contains h = true
+    · simp only [hsk, if_true, List.mem_cons]
+      have hin : h ∈ skip := by simpa using hsk
+      constructor
+      · rintro (h1 | ⟨h1, h2⟩)
+        · exact Or.inl h1
+        · exact Or.inr ⟨Or.inr h1, h2⟩
+      · rintro (h1 | ⟨h1 | h1, h2⟩)
+        · exact Or.inl h1
+        · subst h1; exact absurd hin h2
+        · exact Or.inr ⟨h1, h2⟩
+    · simp only [hsk, List.mem_cons]
+      have hin : h ∉ skip := by simpa using hsk
+      rw [if_neg (by simp), mem_addSet]
+      constructor
+      · rintro ((h1 | rfl) | ⟨h1, h2⟩)
+        · exact Or.inl h1
+        · exact Or.inr ⟨Or.inl rfl, hin⟩
+        · exact Or.inr ⟨Or.inr h1, h2⟩
+      · rintro (h1 | ⟨rfl | h1, h2⟩)
+        · exact Or.inl (Or.inl h1)
+        · exact Or.inl (Or.inr rfl)
+        · exact Or.inr ⟨h1, h2⟩
+
+theorem mem_domainSet {s : Server} {d : Name} : d ∈ domainSet s ↔ d ∈ allHosts s ∧ d ∉ s.skip := by
+  unfold domainSet
+  rw [mem_domainSet_aux]
+  simp
+
+theorem hosts_iff {s : Server} {d : Name} : hosts s d = true ↔ d ∈ domainSet s := by
+  rw [mem_domainSet]
+  simp [hosts]
+
+theorem mem_certNames {P : Params} {s : Server} {d : Name} :
+    d ∈ certNames P s ↔ s.disableCerts = false ∧ d ∈ domainSet s ∧ certOk P s d = true := by
+  unfold certNames
+  split
+  · rename_i h; simp [h]
+  · rename_i h; simp [h]
+
+theorem engaged_of_mem_domainSet {c : Config} {s : Server} {d : Name} (h : d ∈ domainSet s) :
+    engaged c s = active c s := by
+  unfold engaged
+  have : (domainSet s).isEmpty = false := by
+    cases hd : domainSet s with
+    | nil => rw [hd] at h; simp at h
+    | cons => rfl
+  simp [this]
+
+/-- names in `uniqueDomainsForCerts` after any prefix of the main loop -/
+theorem mem_mainLoop_uniq (c : Config) (P : Params) {d : Name} :
+    ∀ {l : List (Nat × Server)} {st : List Name × RD},
+      d ∈ (l.foldl (mainStep c P) st).1 ↔
+        d ∈ st.1 ∨ ∃ ks ∈ l, engaged c ks.2 = true ∧ d ∈ certNames P ks.2
+  | [], st => by simp
+  | ks :: l, st => by
+    simp only [List.foldl_cons]
+    rw [mem_mainLoop_uniq c P]
+    unfold mainStep
+    by_cases he : engaged c ks.2 = true
+    · simp only [he, if_true, mem_foldl_addSet, List.mem_cons]
+      constructor
+      · rintro ((h | h) | ⟨ks', hm, h1, h2⟩)
+        · exact Or.inl h
+        · exact Or.inr ⟨ks, Or.inl rfl, he, h⟩
+        · exact Or.inr ⟨ks', Or.inr hm, h1, h2⟩
+      · rintro (h | ⟨ks', rfl | hm, h1, h2⟩)
+        · exact Or.inl (Or.inl h)
+        · exact Or.inl (Or.inr h2)
+        · exact Or.inr ⟨ks', hm, h1, h2⟩
+    · simp only [he, List.mem_cons]
+      constructor
+      · rintro (h | ⟨ks', hm, h1, h2⟩)
+        · exact Or.inl h
+        · exact Or.inr ⟨ks', Or.inr hm, h1, h2⟩
+      · rintro (h | ⟨ks', rfl | hm, h1, h2⟩)
+        · exact Or.inl h
+        · exact absurd h1 he
+        · exact Or.inr ⟨ks', hm, h1, h2⟩
+
+/-- `uniqueDomainsForCerts` after the main loop, for every iteration order: exactly the
+    names that qualify on some server -/
+theorem mem_uniq_iff (c : Config) (P : Params) (π : Orders) (d : Name) :
+    d ∈ (mainLoop c P π).1 ↔ qualifies c P d = true := by
+  unfold mainLoop
+  rw [mem_mainLoop_uniq]
+  simp only [List.not_mem_nil, false_or, qualifies, List.any_eq_true, qualifiesOn, Bool.and_eq_true,
+    Bool.not_eq_true']
+  constructor
+  · rintro ⟨ks, hm, he, hc⟩
+    obtain ⟨h1, h2, h3⟩ := mem_certNames.mp hc
+    refine ⟨ks.2, mem_indexed (mem_pull.mp hm), ?_⟩
+    rw [engaged_of_mem_domainSet h2] at he
+    exact ⟨⟨⟨he, h1⟩, hosts_iff.mpr h2⟩, h3⟩
+  · rintro ⟨s, hs, ⟨⟨ha, h1⟩, h2⟩, h3⟩
+    obtain ⟨i, hi⟩ := exists_indexed 0 hs
+    have h2' := hosts_iff.mp h2
+    refine ⟨(i, s), mem_pull.mpr hi, ?_, mem_certNames.mpr ⟨h1, h2', h3⟩⟩
+    rw [engaged_of_mem_domainSet h2']; exact ha
+
+
+
+/-! ### the loop over `uniqueDomainsForCerts` -/
+
+def listsName (pols : List Policy) (d : Name) : Bool := pols.any fun p => p.subjects.contains d
+
+theorem markPolicy_subjects (P : Params) (d : Name) :
+    ∀ (pols : List Policy), (markPolicy P d pols).map (·.subjects) = pols.map (·.subjects)
+  | [] => rfl
+  | p :: ps => by
+    unfold markPolicy
+    split
+    · split <;> simp
+    · simp [markPolicy_subjects P d ps]
+
+theorem listsName_congr {pols pols' : List Policy} (h : pols'.map (·.subjects) = pols.map (·.subjects)) (d : Name) :
+    listsName pols' d = listsName pols d := by
+  have e : ∀ l : List Policy, listsName l d = (l.map (·.subjects)).any (fun s => s.contains d) := by
+    intro l; simp [listsName, List.any_map, Function.comp_def]
+  rw [e, e, h]
+
+/-- what the loop has established after processing the names `ds` -/
+structure LoopBInv (P : Params) (pols0 : List Policy) (uniq0 : List Name) (seen : List Name) (b : LoopB) : Prop where
+  subj : b.pols.map (·.subjects) = pols0.map (·.subjects)
+  uniq : ∀ x, x ∈ b.uniq ↔ x ∈ uniq0 ∧ ¬(x ∈ seen ∧ listsName pols0 x = false ∧ P.ts x = true)
+  tail : ∀ x, x ∈ b.tailscale ↔ x ∈ seen ∧ listsName pols0 x = false ∧ P.ts x = true
+  intl : ∀ x, x ∈ b.internal ↔ x ∈ seen ∧ listsName pols0 x = false ∧ P.ts x = false ∧
+            (P.pub x = false ∨ (P.ip x = true ∧ pols0.isEmpty = true))
+
+theorem loopBInv_step {P : Params} {pols0 : List Policy} {uniq0 seen : List Name} {b : LoopB} {d : Name}
+    (h : LoopBInv P pols0 uniq0 seen b) : LoopBInv P pols0 uniq0 (seen ++ [d]) (stepB P pols0.isEmpty b d) := by
+  have hl : ∀ x, listsName b.pols x = listsName pols0 x := listsName_congr h.subj
+  unfold stepB
+  have hl' : (b.pols.any fun p => p.subjects.contains d) = listsName pols0 d := hl d
+  rw [hl']
+  by_cases h1 : listsName pols0 d = true
+  · simp only [h1, if_true]
+    refine ⟨by simp [markPolicy_subjects, h.subj], ?_, ?_, ?_⟩
+    · intro x; rw [h.uniq x]
+      simp only [List.mem_append, List.mem_singleton]
+      constructor
+      · rintro ⟨a, b'⟩; refine ⟨a, ?_⟩
+        rintro ⟨hx | rfl, h2, h3⟩
+        · exact b' ⟨hx, h2, h3⟩
+        · simp [h1] at h2
+      · rintro ⟨a, b'⟩; exact ⟨a, fun ⟨hx, h2, h3⟩ => b' ⟨Or.inl hx, h2, h3⟩⟩
+    · intro x; rw [h.tail x]
+      simp only [List.mem_append, List.mem_singleton]
+      constructor
+      · rintro ⟨a, b', c'⟩; exact ⟨Or.inl a, b', c'⟩
+      · rintro ⟨hx | rfl, h2, h3⟩
+        · exact ⟨hx, h2, h3⟩
+        · simp [h1] at h2
+    · intro x; rw [h.intl x]
+      simp only [List.mem_append, List.mem_singleton]
+      constructor
+      · rintro ⟨a, b'⟩; exact ⟨Or.inl a, b'⟩
+      · rintro ⟨hx | rfl, h2, h3⟩
+        · exact ⟨hx, h2, h3⟩
+        · simp [h1] at h2
+  · have h1' : listsName pols0 d = false := by simpa using h1
+    simp only [h1', Bool.false_eq_true, if_false]
+    by_cases h2 : P.ts d = true
+    · simp only [h2, if_true]
+      refine ⟨h.subj, ?_, ?_, ?_⟩
+      · intro x
+        simp only [List.mem_filter, decide_eq_true_eq, h.uniq x, List.mem_append, List.mem_singleton]
+        constructor
+        · rintro ⟨⟨a, b'⟩, hne⟩
+          refine ⟨a, ?_⟩
+          rintro ⟨hx | rfl, h3, h4⟩
+          · exact b' ⟨hx, h3, h4⟩
+          · exact hne rfl
+        · rintro ⟨a, b'⟩
+          refine ⟨⟨a, fun ⟨hx, h3, h4⟩ => b' ⟨Or.inl hx, h3, h4⟩⟩, ?_⟩
+          rintro rfl
+          exact b' ⟨Or.inr rfl, h1', h2⟩
+      · intro x
+        simp only [List.mem_append, List.mem_singleton, h.tail x]
+        constructor
+        · rintro (⟨a, b', c'⟩ | rfl)
+          · exact ⟨Or.inl a, b', c'⟩
+          · exact ⟨Or.inr rfl, h1', h2⟩
+        · rintro ⟨hx | rfl, h3, h4⟩
+          · exact Or.inl ⟨hx, h3, h4⟩
+          · exact Or.inr rfl
+      · intro x; rw [h.intl x]
+        simp only [List.mem_append, List.mem_singleton]
+        constructor
+        · rintro ⟨a, b'⟩; exact ⟨Or.inl a, b'⟩
+        · rintro ⟨hx | rfl, h3, h4, h5⟩
+          · exact ⟨hx, h3, h4, h5⟩
+          · simp [h2] at h4
+    · have h2' : P.ts d = false := by simpa using h2
+      simp only [h2', Bool.false_eq_true, if_false]
+      have huniq : ∀ x, x ∈ b.uniq ↔ x ∈ uniq0 ∧ ¬(x ∈ seen ++ [d] ∧ listsName pols0 x = false ∧ P.ts x = true) := by
+        intro x; rw [h.uniq x]
+        simp only [List.mem_append, List.mem_singleton]
+        constructor
+        · rintro ⟨a, b'⟩; refine ⟨a, ?_⟩
+          rintro ⟨hx | rfl, h3, h4⟩
+          · exact b' ⟨hx, h3, h4⟩
+          · simp [h2'] at h4
+        · rintro ⟨a, b'⟩; exact ⟨a, fun ⟨hx, h3, h4⟩ => b' ⟨Or.inl hx, h3, h4⟩⟩
+      have htail : ∀ x, x ∈ b.tailscale ↔ x ∈ seen ++ [d] ∧ listsName pols0 x = false ∧ P.ts x = true := by
+        intro x; rw [h.tail x]
+        simp only [List.mem_append, List.mem_singleton]
+        constructor
+        · rintro ⟨a, b', c'⟩; exact ⟨Or.inl a, b', c'⟩
+        · rintro ⟨hx | rfl, h3, h4⟩
+          · exact ⟨hx, h3, h4⟩
+          · simp [h2'] at h4
+      by_cases h3 : (!P.pub d || (P.ip d && pols0.isEmpty)) = true
+      · simp only [h3, if_true]
+        refine ⟨h.subj, huniq, htail, ?_⟩
+        intro x
+        simp only [List.mem_append, List.mem_singleton, h.intl x]
+        constructor
+        · rintro (⟨a, b'⟩ | rfl)
+          · exact ⟨Or.inl a, b'⟩
+          · refine ⟨Or.inr rfl, h1', h2', ?_⟩
+            simpa using h3
+        · rintro ⟨hx | rfl, h4⟩
+          · exact Or.inl ⟨hx, h4⟩
+          · exact Or.inr rfl
+      · simp only [h3, Bool.false_eq_true, if_false]
+        refine ⟨h.subj, huniq, htail, ?_⟩
+        intro x; rw [h.intl x]
+        simp only [List.mem_append, List.mem_singleton]
+        constructor
+        · rintro ⟨a, b'⟩; exact ⟨Or.inl a, b'⟩
+        · rintro ⟨hx | rfl, h4, h5, h6⟩
+          · exact ⟨hx, h4, h5, h6⟩
+          · exfalso; apply h3; simpa using h6
+
+theorem loopBInv_foldl {P : Params} {pols0 : List Policy} {uniq0 : List Name} :
+    ∀ (ds seen : List Name) (b : LoopB), LoopBInv P pols0 uniq0 seen b →
+      LoopBInv P pols0 uniq0 (seen ++ ds) (ds.foldl (stepB P pols0.isEmpty) b)
+  | [], seen, b, h => by simpa using h
+  | d :: ds, seen, b, h => by
+    have := loopBInv_foldl ds (seen ++ [d]) _ (loopBInv_step (d := d) h)
+    simpa using this
+
+theorem loopB_inv (P : Params) (pols : List Policy) (π : Orders) (uniq : List Name) :
+    LoopBInv P pols uniq (pullKeys π.uniq uniq) (loopB P pols π uniq) := by
+  have h0 : LoopBInv P pols uniq [] ⟨pols, [], [], uniq⟩ :=
+    ⟨rfl, by intro x; simp, by intro x; simp, by intro x; simp⟩
+  have := loopBInv_foldl (pullKeys π.uniq uniq) [] _ h0
+  simpa [loopB] using this
+
+
+
+/-! ### certificates and policies -/
+
+theorem listsName_eq_explicit (c : Config) (d : Name) : listsName c.policies d = explicitPolicy c d := rfl
+
+/-- `allCertDomains` for every iteration order: the qualifying names, minus tailscale
+    names that no explicit policy lists -/
+theorem mem_certsOf (c : Config) (P : Params) (π : Orders) (d : Name) :
+    d ∈ certsOf c P π ↔ qualifies c P d = true ∧ ¬(explicitPolicy c d = false ∧ P.ts d = true) := by
+  unfold certsOf
+  rw [(loopB_inv P c.policies π _).uniq d, mem_uniq_iff, listsName_eq_explicit]
+  constructor
+  · rintro ⟨a, b⟩
+    refine ⟨a, fun ⟨h1, h2⟩ => b ⟨?_, h1, h2⟩⟩
+    exact mem_pullKeys.mpr ((mem_uniq_iff c P π d).mpr a)
+  · rintro ⟨a, b⟩
+    exact ⟨a, fun ⟨_, h1, h2⟩ => b ⟨h1, h2⟩⟩
+
+theorem mem_internalOf (c : Config) (P : Params) (π : Orders) (d : Name) :
+    d ∈ (loopB P c.policies π (mainLoop c P π).1).internal ↔
+      qualifies c P d = true ∧ explicitPolicy c d = false ∧ P.ts d = false ∧
+        (P.pub d = false ∨ (P.ip d = true ∧ c.policies.isEmpty = true)) := by
+  rw [(loopB_inv P c.policies π _).intl d, mem_pullKeys, mem_uniq_iff, listsName_eq_explicit]
+
+theorem mem_tailscaleOf (c : Config) (P : Params) (π : Orders) (d : Name) :
+    d ∈ (loopB P c.policies π (mainLoop c P π).1).tailscale ↔
+      qualifies c P d = true ∧ explicitPolicy c d = false ∧ P.ts d = true := by
+  rw [(loopB_inv P c.policies π _).tail d, mem_pullKeys, mem_uniq_iff, listsName_eq_explicit]
+
+theorem mem_addPolicy {P : Params} {ap x : Policy} : ∀ {pols : List Policy}, x ∈ addPolicy P ap pols ↔ x = ap ∨ x ∈ pols
+  | [] => by simp [addPolicy]
+  | ex :: rest => by
+    unfold addPolicy
+    split
+    · simp
+    · simp only [List.mem_cons, mem_addPolicy (pols := rest)]
+      constructor
+      · rintro (h | h | h)
+        · exact Or.inr (Or.inl h)
+        · exact Or.inl h
+        · exact Or.inr (Or.inr h)
+      · rintro (h | h | h)
+        · exact Or.inr (Or.inl h)
+        · exact Or.inl h
+        · exact Or.inr (Or.inr h)
+
+/-- the policy's subject list admits `d` (`getAutomationPolicyForName`'s test) -/
+def admits (P : Params) (p : Policy) (d : Name) : Bool := p.subjects.isEmpty || p.subjects.any fun o => P.mw d o
+
+theorem policyFor_cons (P : Params) (d : Name) (p : Policy) (ps : List Policy) :
+    policyFor P d (p :: ps) = if admits P p d then some p else policyFor P d ps := rfl
+
+/-- a freshly added policy that lists `d` is the one `d` resolves to -/
+theorem policyFor_addPolicy_self {P : Params} {ap : Policy} {d : Name} (hd : d ∈ ap.subjects)
+    (hmw : P.mw d d = true) : ∀ pols, policyFor P d (addPolicy P ap pols) = some ap := by
+  have hadm : admits P ap d = true := by
+    simp only [admits, Bool.or_eq_true, List.any_eq_true]
+    exact Or.inr ⟨d, hd, hmw⟩
+  intro pols
+  induction pols with
+  | nil => simp [addPolicy, policyFor_cons, hadm]
+  | cons ex rest ih =>
+    unfold addPolicy
+    split
+    · simp [policyFor_cons, hadm]
+    · rename_i hc
+      rw [policyFor_cons]
+      have : admits P ex d = false := by
+        cases hx : admits P ex d with
+        | false => rfl
+        | true =>
+          exfalso; apply hc
+          simp only [admits, Bool.or_eq_true, List.any_eq_true] at hx
+          simp only [Bool.or_eq_true, decide_eq_true_eq, supersetOf, List.any_eq_true]
+          rcases hx with hx | ⟨o, ho, hmo⟩
+          · right
+            have : ex.subjects = [] := by simpa using hx
+            rw [this]
+            exact List.length_pos_of_mem hd
+          · left; exact ⟨d, hd, o, ho, hmo⟩
+      simp [this, ih]
+
+/-- adding a policy that does not admit `d` does not change what `d` resolves to -/
+theorem policyFor_addPolicy_other {P : Params} {ap : Policy} {d : Name} (h : admits P ap d = false) :
+    ∀ pols, policyFor P d (addPolicy P ap pols) = policyFor P d pols := by
+  intro pols
+  induction pols with
+  | nil => simp [addPolicy, policyFor_cons, h, policyFor]
+  | cons ex rest ih =>
+    unfold addPolicy
+    split
+    · simp [policyFor_cons, h]
+    · simp [policyFor_cons, ih]
+
+theorem policyFor_isSome_of_catchAll {P : Params} {d : Name} :
+    ∀ {pols : List Policy}, (∃ p ∈ pols, p.subjects = []) → (policyFor P d pols).isSome = true
+  | [], h => by obtain ⟨p, hp, _⟩ := h; simp at hp
+  | q :: rest, h => by
+    rw [policyFor_cons]
+    split
+    · rfl
+    · rename_i hq
+      obtain ⟨p, hp, he⟩ := h
+      rcases List.mem_cons.mp hp with rfl | hp
+      · simp [admits, he] at hq
+      · exact policyFor_isSome_of_catchAll ⟨p, hp, he⟩
+
+theorem findBase_some {pols : List Policy} {p : Policy} (h : findBase pols = some p) : p ∈ pols ∧ p.subjects = [] := by
+  induction pols with
+  | nil => simp [findBase] at h
+  | cons q rest ih =>
+    unfold findBase at h
+    split at h
+    · rename_i hq; cases h; exact ⟨by simp, by simpa using hq⟩
+    · exact ⟨List.mem_cons_of_mem _ (ih h).1, (ih h).2⟩
+
+theorem withBase_has_catchAll (P : Params) (pols : List Policy) : ∃ p ∈ withBase P pols, p.subjects = [] := by
+  unfold withBase
+  split
+  · rename_i p h; exact ⟨p, (findBase_some h).1, (findBase_some h).2⟩
+  · exact ⟨newBase, mem_addPolicy.mpr (Or.inl rfl), rfl⟩
+
+theorem createPolicies_has_catchAll (P : Params) (pols : List Policy) (il tl : List Name) :
+    ∃ p ∈ createPolicies P pols il tl, p.subjects = [] := by
+  obtain ⟨p, hp, he⟩ := withBase_has_catchAll P (pols.map fillDefault)
+  refine ⟨p, ?_, he⟩
+  unfold createPolicies withTailscale withInternal
+  split <;> split <;> simp [mem_addPolicy, hp]
+
+
+
+/-! ### the main loop: `redirDomains` -/
+
+theorem assocMem_append_mono {κ α} [DecidableEq κ] {m : List (κ × List α)} {k k' : κ} {v v' : α}
+    (h : assocMem m k' v') : assocMem (assocAppend m k v) k' v' := assocMem_append.mpr (Or.inl h)
+
+theorem rdStepDom_sound {https : Nat} {a : Addr} {rd : RD} {d d' : Name} {a' : Addr}
+    (h : assocMem (rdStepDom https a rd d) d' a') : assocMem rd d' a' ∨ (d' = d ∧ a' = a) := by
+  unfold rdStepDom at h
+  split at h
+  · exact assocMem_append.mp h
+  · exact Or.inl h
+
+theorem rdStepDom_mono {https : Nat} {a : Addr} {rd : RD} {d d' : Name} {a' : Addr}
+    (h : assocMem rd d' a') : assocMem (rdStepDom https a rd d) d' a' := by
+  unfold rdStepDom
+  split
+  · exact assocMem_append_mono h
+  · exact h
+
+theorem rdStepDom_hasKey {https : Nat} {a : Addr} {rd : RD} {d d' : Name} :
+    hasKey (rdStepDom https a rd d) d' = (hasKey rd d' || decide (d' = d)) := by
+  unfold rdStepDom
+  split
+  · exact hasKey_append
+  · rename_i h
+    have hk : hasKey rd d = true := by
+      cases hh : hasKey rd d with
+      | true => rfl
+      | false => simp [hh] at h
+    by_cases e : d' = d
+    · subst e; simp [hk]
+    · simp [e]
+
+theorem rdStepDom_nonEmpty {https : Nat} {a : Addr} {rd : RD} {d : Name} (h : NonEmptyVals rd) :
+    NonEmptyVals (rdStepDom https a rd d) := by
+  unfold rdStepDom
+  split
+  · exact nonEmptyVals_append h
+  · exact h
+
+theorem rdFoldDom_sound {https : Nat} {a : Addr} {d' : Name} {a' : Addr} :
+    ∀ {doms : List Name} {rd : RD}, assocMem (doms.foldl (rdStepDom https a) rd) d' a' →
+      assocMem rd d' a' ∨ (d' ∈ doms ∧ a' = a)
+  | [], rd, h => Or.inl h
+  | d :: doms, rd, h => by
+    simp only [List.foldl_cons] at h
+    rcases rdFoldDom_sound h with h | ⟨h1, h2⟩
+    · rcases rdStepDom_sound h with h | ⟨rfl, h2⟩
+      · exact Or.inl h
+      · exact Or.inr ⟨by simp, h2⟩
+    · exact Or.inr ⟨List.mem_cons_of_mem _ h1, h2⟩
+
+theorem rdFoldDom_mono {https : Nat} {a : Addr} {d' : Name} {a' : Addr} :
+    ∀ {doms : List Name} {rd : RD}, assocMem rd d' a' → assocMem (doms.foldl (rdStepDom https a) rd) d' a'
+  | [], _, h => h
+  | _ :: doms, _, h => by
+    simp only [List.foldl_cons]
+    exact rdFoldDom_mono (doms := doms) (rdStepDom_mono h)
+
+theorem rdFoldDom_hasKey {https : Nat} {a : Addr} {d' : Name} :
+    ∀ {doms : List Name} {rd : RD},
+      hasKey (doms.foldl (rdStepDom https a) rd) d' = (hasKey rd d' || doms.contains d')
+  | [], rd => by simp
+  | d :: doms, rd => by
+    simp only [List.foldl_cons]
+    rw [rdFoldDom_hasKey, rdStepDom_hasKey, Bool.or_assoc]
+    congr 1
+
+theorem rdFoldDom_nonEmpty {https : Nat} {a : Addr} :
+    ∀ {doms : List Name} {rd : RD}, NonEmptyVals rd → NonEmptyVals (doms.foldl (rdStepDom https a) rd)
+  | [], _, h => h
+  | _ :: doms, _, h => by
+    simp only [List.foldl_cons]
+    exact rdFoldDom_nonEmpty (doms := doms) (rdStepDom_nonEmpty h)
+
+theorem mem_keysOf_cases {s : Server} {d : Name} :
+    d ∈ keysOf s ↔ ((domainSet s).isEmpty = true ∧ d = 0) ∨ ((domainSet s).isEmpty = false ∧ d ∈ domainSet s) := by
+  unfold keysOf
+  cases h : (domainSet s).isEmpty <;> simp
+
+theorem rdStepAddr_sound {https : Nat} {s : Server} {rd : RD} {a : Addr} {d' : Name} {a' : Addr}
+    (h : assocMem (rdStepAddr https (domainSet s) rd a) d' a') : assocMem rd d' a' ∨ (d' ∈ keysOf s ∧ a' = a) := by
+  unfold rdStepAddr at h
+  split at h
+  · rename_i he
+    rcases assocMem_append.mp h with h | ⟨rfl, rfl⟩
+    · exact Or.inl h
+    · exact Or.inr ⟨mem_keysOf_cases.mpr (Or.inl ⟨he, rfl⟩), rfl⟩
+  · rename_i he
+    rcases rdFoldDom_sound h with h | ⟨h1, h2⟩
+    · exact Or.inl h
+    · exact Or.inr ⟨mem_keysOf_cases.mpr (Or.inr ⟨by simpa using he, h1⟩), h2⟩
+
+theorem rdStepAddr_mono {https : Nat} {doms : List Name} {rd : RD} {a : Addr} {d' : Name} {a' : Addr}
+    (h : assocMem rd d' a') : assocMem (rdStepAddr https doms rd a) d' a' := by
+  unfold rdStepAddr
+  split
+  · exact assocMem_append_mono h
+  · exact rdFoldDom_mono h
+
+theorem rdStepAddr_hasKey {https : Nat} {s : Server} {rd : RD} {a : Addr} {d' : Name} :
+    hasKey (rdStepAddr https (domainSet s) rd a) d' = (hasKey rd d' || (keysOf s).contains d') := by
+  unfold rdStepAddr keysOf
+  split
+  · rename_i he
+    rw [hasKey_append]
+    simp [he]
+  · rw [rdFoldDom_hasKey]
+
+theorem rdStepAddr_nonEmpty {https : Nat} {doms : List Name} {rd : RD} {a : Addr} (h : NonEmptyVals rd) :
+    NonEmptyVals (rdStepAddr https doms rd a) := by
+  unfold rdStepAddr
+  split
+  · exact nonEmptyVals_append h
+  · exact rdFoldDom_nonEmpty h
+
+theorem rdFoldAddr_sound {https : Nat} {s : Server} {d' : Name} {a' : Addr} :
+    ∀ {as : List Addr} {rd : RD}, assocMem (as.foldl (rdStepAddr https (domainSet s)) rd) d' a' →
+      assocMem rd d' a' ∨ (d' ∈ keysOf s ∧ a' ∈ as)
+  | [], _, h => Or.inl h
+  | a :: as, rd, h => by
+    simp only [List.foldl_cons] at h
+    rcases rdFoldAddr_sound h with h | ⟨h1, h2⟩
+    · rcases rdStepAddr_sound h with h | ⟨h1, rfl⟩
+      · exact Or.inl h
+      · exact Or.inr ⟨h1, by simp⟩
+    · exact Or.inr ⟨h1, List.mem_cons_of_mem _ h2⟩
+
+theorem rdFoldAddr_mono {https : Nat} {doms : List Name} {d' : Name} {a' : Addr} :
+    ∀ {as : List Addr} {rd : RD}, assocMem rd d' a' → assocMem (as.foldl (rdStepAddr https doms) rd) d' a'
+  | [], _, h => h
+  | _ :: as, _, h => by
+    simp only [List.foldl_cons]
+    exact rdFoldAddr_mono (as := as) (rdStepAddr_mono h)
+
+theorem rdFoldAddr_hasKey {https : Nat} {s : Server} {d' : Name} :
+    ∀ {as : List Addr} {rd : RD},
+      hasKey (as.foldl (rdStepAddr https (domainSet s)) rd) d' =
+        (hasKey rd d' || (!as.isEmpty && (keysOf s).contains d'))
+  | [], rd => by simp
+  | a :: as, rd => by
+    simp only [List.foldl_cons]
+    rw [rdFoldAddr_hasKey, rdStepAddr_hasKey]
+    cases hasKey rd d' <;> cases (keysOf s).contains d' <;> cases as.isEmpty <;> simp
+
+theorem rdFoldAddr_nonEmpty {https : Nat} {doms : List Name} :
+    ∀ {as : List Addr} {rd : RD}, NonEmptyVals rd → NonEmptyVals (as.foldl (rdStepAddr https doms) rd)
+  | [], _, h => h
+  | _ :: as, _, h => by
+    simp only [List.foldl_cons]
+    exact rdFoldAddr_nonEmpty (as := as) (rdStepAddr_nonEmpty h)
+
+theorem listen_ne_nil_of_active {c : Config} {s : Server} (h : active c s = true) : s.listen.isEmpty = false := by
+  unfold active usesOther at h
+  cases hl : s.listen with
+  | nil => simp [hl] at h
+  | cons => rfl
+
+theorem redirOn_iff {c : Config} {s : Server} : redirOn c s = true ↔ engaged c s = true ∧ s.disableRedir = false := by
+  simp [redirOn]
+
+theorem active_of_engaged {c : Config} {s : Server} (h : engaged c s = true) : active c s = true := by
+  unfold engaged at h
+  simp only [Bool.and_eq_true] at h
+  exact h.1
+
+/-- what `redirDomains` holds after any prefix of the main loop -/
+theorem mainLoop_rd_sound (c : Config) (P : Params) {d : Name} {a : Addr} :
+    ∀ {l : List (Nat × Server)} {st : List Name × RD},
+      assocMem (l.foldl (mainStep c P) st).2 d a →
+        assocMem st.2 d a ∨ ∃ ks ∈ l, redirOn c ks.2 = true ∧ d ∈ keysOf ks.2 ∧ a ∈ ks.2.listen
+  | [], _, h => Or.inl h
+  | ks :: l, st, h => by
+    simp only [List.foldl_cons] at h
+    rcases mainLoop_rd_sound c P h with h | ⟨ks', hm, h1⟩
+    · unfold mainStep at h
+      split at h
+      · rename_i he
+        simp only at h
+        split at h
+        · exact Or.inl h
+        · rename_i hr
+          rcases rdFoldAddr_sound h with h | ⟨h1, h2⟩
+          · exact Or.inl h
+          · exact Or.inr ⟨ks, by simp, redirOn_iff.mpr ⟨he, by simpa using hr⟩, h1, h2⟩
+      · exact Or.inl h
+    · exact Or.inr ⟨ks', List.mem_cons_of_mem _ hm, h1⟩
+
+theorem mainStep_rd_mono (c : Config) (P : Params) {d : Name} {a : Addr} {st : List Name × RD} {ks : Nat × Server}
+    (h : assocMem st.2 d a) : assocMem (mainStep c P st ks).2 d a := by
+  unfold mainStep
+  split
+  · simp only
+    split
+    · exact h
+    · exact rdFoldAddr_mono h
+  · exact h
+
+theorem mainLoop_rd_mono (c : Config) (P : Params) {d : Name} {a : Addr} :
+    ∀ {l : List (Nat × Server)} {st : List Name × RD}, assocMem st.2 d a → assocMem (l.foldl (mainStep c P) st).2 d a
+  | [], _, h => h
+  | _ :: l, _, h => by
+    simp only [List.foldl_cons]
+    exact mainLoop_rd_mono c P (l := l) (mainStep_rd_mono c P h)
+
+theorem mainStep_rd_nonEmpty (c : Config) (P : Params) {st : List Name × RD} {ks : Nat × Server}
+    (h : NonEmptyVals st.2) : NonEmptyVals (mainStep c P st ks).2 := by
+  unfold mainStep
+  split
+  · simp only
+    split
+    · exact h
+    · exact rdFoldAddr_nonEmpty h
+  · exact h
+
+theorem mainLoop_rd_nonEmpty (c : Config) (P : Params) :
+    ∀ {l : List (Nat × Server)} {st : List Name × RD}, NonEmptyVals st.2 → NonEmptyVals (l.foldl (mainStep c P) st).2
+  | [], _, h => h
+  | _ :: l, _, h => by
+    simp only [List.foldl_cons]
+    exact mainLoop_rd_nonEmpty c P (l := l) (mainStep_rd_nonEmpty c P h)
+
+/-- every key a redirect-enabled server contributes is present afterwards (with at least
+    one address, by `mainLoop_rd_nonEmpty`) -/
+theorem mainLoop_rd_complete (c : Config) (P : Params) {d : Name} :
+    ∀ {l : List (Nat × Server)} {st : List Name × RD} {ks : Nat × Server},
+      ks ∈ l → redirOn c ks.2 = true → d ∈ keysOf ks.2 → NonEmptyVals st.2 →
+        ∃ a, assocMem (l.foldl (mainStep c P) st).2 d a
+  | ks0 :: l, st, ks, hm, hr, hd, hne => by
+    simp only [List.foldl_cons]
+    rcases List.mem_cons.mp hm with rfl | hm
+    · have he := (redirOn_iff.mp hr).1
+      have hk : hasKey (mainStep c P st ks).2 d = true := by
+        unfold mainStep
+        simp only [he, if_true, (redirOn_iff.mp hr).2, Bool.false_eq_true, if_false]
+        unfold rdStepSrv
+        rw [rdFoldAddr_hasKey, listen_ne_nil_of_active (active_of_engaged he)]
+        simp [hd]
+      obtain ⟨a, ha⟩ := assocMem_of_hasKey (mainStep_rd_nonEmpty c P hne) hk
+      exact ⟨a, mainLoop_rd_mono c P ha⟩
+    · exact mainLoop_rd_complete c P hm hr hd (mainStep_rd_nonEmpty c P hne)
+
+
+
+/-! ### `domainsByAddr` and `redirServers` -/
+
+theorem dbaInner_mem {d0 : Name} {a : Addr} {d : Name} :
+    ∀ {as : List Addr} {m : DBA},
+      assocMem (as.foldl (fun m a => assocAppend m a d0) m) a d ↔ assocMem m a d ∨ (d = d0 ∧ a ∈ as)
+  | [], m => by simp
+  | a0 :: as, m => by
+    simp only [List.foldl_cons]
+    rw [dbaInner_mem, assocMem_append]
+    simp only [List.mem_cons]
+    constructor
+    · rintro ((h | ⟨rfl, rfl⟩) | ⟨h1, h2⟩)
+      · exact Or.inl h
+      · exact Or.inr ⟨rfl, Or.inl rfl⟩
+      · exact Or.inr ⟨h1, Or.inr h2⟩
+    · rintro (h | ⟨h1, rfl | h2⟩)
+      · exact Or.inl (Or.inl h)
+      · exact Or.inl (Or.inr ⟨rfl, h1⟩)
+      · exact Or.inr ⟨h1, h2⟩
+
+theorem dbaFold_mem {a : Addr} {d : Name} :
+    ∀ {l : RD} {m : DBA}, assocMem (l.foldl dbaStep m) a d ↔ assocMem m a d ∨ assocMem l d a
+  | [], m => by simp [assocMem_nil]
+  | da :: l, m => by
+    simp only [List.foldl_cons]
+    rw [dbaFold_mem]
+    unfold dbaStep
+    rw [dbaInner_mem]
+    constructor
+    · rintro ((h | ⟨rfl, h2⟩) | ⟨vs, h1, h2⟩)
+      · exact Or.inl h
+      · exact Or.inr ⟨da.2, by simp, h2⟩
+      · exact Or.inr ⟨vs, List.mem_cons_of_mem _ h1, h2⟩
+    · rintro (h | ⟨vs, h1, h2⟩)
+      · exact Or.inl (Or.inl h)
+      · rcases List.mem_cons.mp h1 with h | h
+        · subst h; exact Or.inl (Or.inr ⟨rfl, h2⟩)
+        · exact Or.inr ⟨vs, h, h2⟩
+
+theorem assocMem_pull {κ α} [DecidableEq κ] {π : List κ} {m : List (κ × List α)} {k : κ} {v : α} :
+    assocMem (pull π m) k v ↔ assocMem m k v := by
+  unfold assocMem
+  constructor
+  · rintro ⟨vs, h, hv⟩; exact ⟨vs, mem_pull.mp h, hv⟩
+  · rintro ⟨vs, h, hv⟩; exact ⟨vs, mem_pull.mpr h, hv⟩
+
+/-- `d ∈ domainsByAddr[a] ↔ a ∈ redirDomains[d]`, whatever the iteration order -/
+theorem mem_domainsByAddr {π : Orders} {rd : RD} {a : Addr} {d : Name} :
+    assocMem (domainsByAddr π rd) a d ↔ assocMem rd d a := by
+  unfold domainsByAddr
+  rw [dbaFold_mem, assocMem_pull]
+  simp [assocMem_nil]
+
+theorem dbaInner_nonEmpty {d0 : Name} :
+    ∀ {as : List Addr} {m : DBA}, NonEmptyVals m → NonEmptyVals (as.foldl (fun m a => assocAppend m a d0) m)
+  | [], _, h => h
+  | _ :: as, _, h => by
+    simp only [List.foldl_cons]
+    exact dbaInner_nonEmpty (as := as) (nonEmptyVals_append h)
+
+theorem dbaFold_nonEmpty : ∀ {l : RD} {m : DBA}, NonEmptyVals m → NonEmptyVals (l.foldl dbaStep m)
+  | [], _, h => h
+  | _ :: l, _, h => by
+    simp only [List.foldl_cons]
+    exact dbaFold_nonEmpty (l := l) (dbaInner_nonEmpty h)
+
+theorem domainsByAddr_nonEmpty (π : Orders) (rd : RD) : NonEmptyVals (domainsByAddr π rd) :=
+  dbaFold_nonEmpty (fun _ _ h => by simp at h)
+
+theorem rsFold_mem (c : Config) {R : Addr} {rt : Route} :
+    ∀ {l : DBA} {m : RS},
+      assocMem (l.foldl (rsStep c) m) R rt ↔
+        assocMem m R rt ∨ ∃ ad ∈ l, R = redirAddr c ad.1 ∧ rt = mkRedirRoute c ad.1 ad.2
+  | [], m => by simp
+  | ad0 :: l, m => by
+    simp only [List.foldl_cons]
+    rw [rsFold_mem c]
+    unfold rsStep
+    rw [assocMem_append]
+    simp only [List.mem_cons]
+    constructor
+    · rintro ((h | ⟨h1, h2⟩) | ⟨ad, hm, h1, h2⟩)
+      · exact Or.inl h
+      · exact Or.inr ⟨ad0, Or.inl rfl, h1, h2⟩
+      · exact Or.inr ⟨ad, Or.inr hm, h1, h2⟩
+    · rintro (h | ⟨ad, rfl | hm, h1, h2⟩)
+      · exact Or.inl (Or.inl h)
+      · exact Or.inl (Or.inr ⟨h1, h2⟩)
+      · exact Or.inr ⟨ad, hm, h1, h2⟩
+
+/-- the redirect routes, whatever the iteration order: one per `domainsByAddr` entry, filed
+    under the entry's address moved to the HTTP port -/
+theorem mem_redirServers (c : Config) (π : Orders) (dba : DBA) {R : Addr} {rt : Route} :
+    assocMem (redirServers c π dba) R rt ↔ ∃ ad ∈ dba, R = redirAddr c ad.1 ∧ rt = mkRedirRoute c ad.1 ad.2 := by
+  unfold redirServers
+  rw [rsFold_mem]
+  simp only [assocMem_nil, false_or]
+  constructor
+  · rintro ⟨ad, h, h'⟩; exact ⟨ad, mem_pull.mp h, h'⟩
+  · rintro ⟨ad, h, h'⟩; exact ⟨ad, mem_pull.mpr h, h'⟩
+
+/-- the route lists `d`, or has no host matcher at all -/
+def Route.covers (d : Name) : Route → Bool
+  | .redir none _ => true
+  | .redir (some hs) _ => hs.contains d
+  | .user _ _ => false
+
+/-- the route's host matcher lists `d` -/
+def Route.lists (d : Name) : Route → Bool
+  | .redir (some hs) _ => hs.contains d
+  | _ => false
+
+def Route.port : Route → Nat
+  | .redir _ p => p
+  | .user _ _ => 0
+
+theorem mkRedirRoute_covers {c : Config} {a : Addr} {doms : List Name} {d : Name} (h : d ∈ doms) :
+    (mkRedirRoute c a doms).covers d = true := by
+  unfold mkRedirRoute
+  split <;> simp [Route.covers, h]
+
+theorem mkRedirRoute_lists {c : Config} {a : Addr} {doms : List Name} {d : Name}
+    (h : (mkRedirRoute c a doms).lists d = true) : d ∈ doms := by
+  unfold mkRedirRoute at h
+  split at h
+  · simp [Route.lists] at h
+  · simpa [Route.lists] using h
+
+theorem mkRedirRoute_port {c : Config} {a : Addr} {doms : List Name} :
+    (mkRedirRoute c a doms).port = portRule c a.sp := rfl
+
+theorem mkRedirRoute_isRedir {c : Config} {a : Addr} {doms : List Name} :
+    (mkRedirRoute c a doms).isRedir = true := rfl
+
+/-- the map of redirect routes phase 1 builds -/
+def rsOf (c : Config) (P : Params) (π : Orders) : RS :=
+  redirServers c π (domainsByAddr π (mainLoop c P π).2)
+
+/-- every redirect route in the map comes from a listener of a redirect-enabled server, and
+    every name it lists is a key of such a server listening there -/
+theorem rsOf_sound (c : Config) (P : Params) (π : Orders) {R : Addr} {rt : Route}
+    (h : assocMem (rsOf c P π) R rt) :
+    ∃ a doms, R = redirAddr c a ∧ rt = mkRedirRoute c a doms ∧ doms ≠ [] ∧
+      ∀ d ∈ doms, ∃ s ∈ c.servers, redirOn c s = true ∧ d ∈ keysOf s ∧ a ∈ s.listen := by
+  obtain ⟨ad, hm, h1, h2⟩ := (mem_redirServers c π _).mp h
+  refine ⟨ad.1, ad.2, h1, h2, domainsByAddr_nonEmpty π _ ad.1 ad.2 hm, ?_⟩
+  intro d hd
+  have : assocMem (mainLoop c P π).2 d ad.1 := mem_domainsByAddr.mp ⟨ad.2, hm, hd⟩
+  unfold mainLoop at this
+  rcases mainLoop_rd_sound c P this with h | ⟨ks, hks, h3, h4, h5⟩
+  · exact absurd h assocMem_nil
+  · exact ⟨ks.2, mem_indexed (mem_pull.mp hks), h3, h4, h5⟩
+
+/-- every key of a redirect-enabled server gets a redirect route built from a listener of a
+    redirect-enabled server that contributes the same key -/
+theorem rsOf_complete (c : Config) (P : Params) (π : Orders) {s : Server} {d : Name}
+    (hs : s ∈ c.servers) (hr : redirOn c s = true) (hd : d ∈ keysOf s) :
+    ∃ a doms, assocMem (rsOf c P π) (redirAddr c a) (mkRedirRoute c a doms) ∧ d ∈ doms ∧
+      ∃ s' ∈ c.servers, redirOn c s' = true ∧ d ∈ keysOf s' ∧ a ∈ s'.listen := by
+  obtain ⟨i, hi⟩ := exists_indexed 0 hs
+  obtain ⟨a, ha⟩ := mainLoop_rd_complete c P (st := ([], [])) (mem_pull.mpr hi) hr hd (fun _ _ h => by simp at h)
+  have ha' : assocMem (mainLoop c P π).2 d a := ha
+  obtain ⟨doms, hm, hdm⟩ := (mem_domainsByAddr (π := π)).mpr ha'
+  refine ⟨a, doms, (mem_redirServers c π _).mpr ⟨(a, doms), hm, rfl, rfl⟩, hdm, ?_⟩
+  unfold mainLoop at ha'
+  rcases mainLoop_rd_sound c P ha' with h | ⟨ks, hks, h3, h4, h5⟩
+  · exact absurd h assocMem_nil
+  · exact ⟨ks.2, mem_indexed (mem_pull.mp hks), h3, h4, h5⟩
+
+
+
+/-! ### distributing the redirect routes over the servers -/
+
+/-- `y` is what has become of the initial server `x` -/
+structure SrvRel (c : Config) (rs : RS) (x y : Nat × SrvOut) : Prop where
+  key : y.1 = x.1
+  listen : y.2.listen = x.2.listen
+  disabled : y.2.disabled = x.2.disabled
+  tls : y.2.tls = x.2.tls
+  sound : ∀ rt ∈ y.2.routes, rt ∈ x.2.routes ∨ rt = catchAllRoute c ∨ ∃ R, assocMem rs R rt
+  mono : ∀ rt ∈ x.2.routes, rt ∈ y.2.routes
+
+theorem SrvRel.refl (c : Config) (rs : RS) (x : Nat × SrvOut) : SrvRel c rs x x :=
+  ⟨rfl, rfl, rfl, rfl, fun _ h => Or.inl h, fun _ h => h⟩
+
+theorem mem_receive {c : Config} {b : Bool} {routes : List Route} {s : SrvOut} {rt : Route} :
+    rt ∈ (receive c b routes s).routes ↔
+      rt ∈ s.routes ∨ rt = catchAllRoute c ∨ (b = true ∧ rt ∈ routes) := by
+  unfold receive
+  cases b
+  · simp
+  · simp only [if_true, List.mem_append, List.mem_singleton, true_and]
+    have htd : rt ∈ s.routes ↔ rt ∈ s.routes.take (findLast s.routes) ∨ rt ∈ s.routes.drop (findLast s.routes) := by
+      rw [← List.mem_append, List.take_append_drop]
+    rw [htd]
+    constructor
+    · rintro ((h | h | h) | h)
+      · exact Or.inl (Or.inl h)
+      · exact Or.inr (Or.inr h)
+      · exact Or.inl (Or.inr h)
+      · exact Or.inr (Or.inl h)
+    · rintro ((h | h) | h | h)
+      · exact Or.inl (Or.inl h)
+      · exact Or.inl (Or.inr (Or.inr h))
+      · exact Or.inr h
+      · exact Or.inl (Or.inr (Or.inl h))
+
+theorem SrvRel.receive {c : Config} {rs : RS} {x y : Nat × SrvOut} {b : Bool} {R : Addr} {routes : List Route}
+    (h : SrvRel c rs x y) (hr : ∀ rt ∈ routes, assocMem rs R rt) :
+    SrvRel c rs x (y.1, receive c b routes y.2) :=
+  ⟨h.key, h.listen, h.disabled, h.tls,
+   fun rt hrt => by
+     rcases mem_receive.mp hrt with h1 | h1 | ⟨_, h1⟩
+     · exact h.sound rt h1
+     · exact Or.inr (Or.inl h1)
+     · exact Or.inr (Or.inr ⟨R, hr rt h1⟩),
+   fun rt hrt => mem_receive.mpr (Or.inl (h.mono rt hrt))⟩
+
+structure FInv (c : Config) (rs : RS) (s0 : List (Nat × SrvOut)) (st : LoopF) : Prop where
+  fwd : ∀ y ∈ st.srvs, ∃ x ∈ s0, SrvRel c rs x y
+  bwd : ∀ x ∈ s0, ∃ y ∈ st.srvs, SrvRel c rs x y
+  newR : ∀ rt ∈ st.newRoutes, ∃ R, assocMem rs R rt
+
+theorem FInv.init (c : Config) (rs : RS) (s0 : List (Nat × SrvOut)) : FInv c rs s0 ⟨s0, [], []⟩ :=
+  ⟨fun y h => ⟨y, h, SrvRel.refl c rs y⟩, fun x h => ⟨x, h, SrvRel.refl c rs x⟩, fun _ h => by simp at h⟩
+
+theorem FInv.step {c : Config} {rs : RS} {s0 : List (Nat × SrvOut)} {st : LoopF} {b : Bool} {π : Orders}
+    {rr : Addr × List Route} (h : FInv c rs s0 st) (hrr : ∀ rt ∈ rr.2, assocMem rs rr.1 rt) :
+    FInv c rs s0 (stepF c b π st rr) := by
+  unfold stepF
+  split
+  · rename_i kv hfind
+    refine ⟨?_, ?_, h.newR⟩
+    · intro y hy
+      obtain ⟨y0, hy0, rfl⟩ := List.mem_map.mp hy
+      obtain ⟨x, hx, hrel⟩ := h.fwd y0 hy0
+      refine ⟨x, hx, ?_⟩
+      split
+      · exact hrel.receive hrr
+      · exact hrel
+    · intro x hx
+      obtain ⟨y0, hy0, hrel⟩ := h.bwd x hx
+      by_cases hk : y0.1 = kv.1
+      · exact ⟨(y0.1, receive c b rr.2 y0.2), List.mem_map.mpr ⟨y0, hy0, by simp [hk]⟩, hrel.receive hrr⟩
+      · exact ⟨y0, List.mem_map.mpr ⟨y0, hy0, by simp [hk]⟩, hrel⟩
+  · refine ⟨h.fwd, h.bwd, ?_⟩
+    intro rt hrt
+    rcases List.mem_append.mp hrt with h1 | h1
+    · exact h.newR rt h1
+    · exact ⟨rr.1, hrr rt h1⟩
+
+theorem FInv.foldl {c : Config} {rs : RS} {s0 : List (Nat × SrvOut)} {b : Bool} {π : Orders} :
+    ∀ {l : RS} {st : LoopF}, FInv c rs s0 st → (∀ rr ∈ l, ∀ rt ∈ rr.2, assocMem rs rr.1 rt) →
+      FInv c rs s0 (l.foldl (stepF c b π) st)
+  | [], _, h, _ => h
+  | rr :: l, _, h, hl => by
+    simp only [List.foldl_cons]
+    exact FInv.foldl (l := l) (h.step (hl rr (by simp))) (fun rr' h' => hl rr' (List.mem_cons_of_mem _ h'))
+
+def initSrvs (c : Config) : List (Nat × SrvOut) := indexed (c.servers.map (srvInit c)) 0
+
+theorem loopF_inv (c : Config) (b : Bool) (π : Orders) (rs : RS) : FInv c rs (initSrvs c) (loopF c b π rs) := by
+  unfold loopF
+  apply FInv.foldl (FInv.init c rs _)
+  intro rr hrr rt hrt
+  exact ⟨rr.2, mem_pull.mp hrr, hrt⟩
+
+theorem userRoutes_not_redir : ∀ {l : List URoute} {i : Nat} {rt : Route}, rt ∈ userRoutes l i → rt.isRedir = false
+  | [], _, _, h => by simp [userRoutes] at h
+  | _ :: l, i, rt, h => by
+    simp only [userRoutes, List.mem_cons] at h
+    rcases h with rfl | h
+    · rfl
+    · exact userRoutes_not_redir h
+
+theorem initSrvs_user {c : Config} {x : Nat × SrvOut} (h : x ∈ initSrvs c) : ∀ rt ∈ x.2.routes, rt.isRedir = false := by
+  have := mem_indexed h
+  obtain ⟨s, _, hs⟩ := List.mem_map.mp this
+  intro rt hrt
+  rw [← hs] at hrt
+  exact userRoutes_not_redir hrt
+
+/-- where every redirect route of the final servers comes from -/
+theorem serversOf_redir_sound (c : Config) (P : Params) (π : Orders) {kv : Nat × SrvOut} {rt : Route}
+    (hkv : kv ∈ serversOf c P π) (hrt : rt ∈ kv.2.routes) (hred : rt.isRedir = true) :
+    rt = catchAllRoute c ∨ ∃ R, assocMem (rsOf c P π) R rt := by
+  have inv := loopF_inv c (!(certsOf c P π).isEmpty) π (rsOf c P π)
+  have fromSrvs : ∀ y ∈ (loopF c (!(certsOf c P π).isEmpty) π (rsOf c P π)).srvs, ∀ rt ∈ y.2.routes,
+      rt.isRedir = true → rt = catchAllRoute c ∨ ∃ R, assocMem (rsOf c P π) R rt := by
+    intro y hy rt hrt hred
+    obtain ⟨x, hx, hrel⟩ := inv.fwd y hy
+    rcases hrel.sound rt hrt with h | h
+    · rw [initSrvs_user hx rt h] at hred; cases hred
+    · exact h
+  have fromNew : ∀ rt ∈ (newServer c π (loopF c (!(certsOf c P π).isEmpty) π (rsOf c P π))).routes,
+      rt = catchAllRoute c ∨ ∃ R, assocMem (rsOf c P π) R rt := by
+    intro rt hrt
+    simp only [newServer, List.mem_append, List.mem_singleton] at hrt
+    rcases hrt with h | h
+    · exact Or.inr (inv.newR rt h)
+    · exact Or.inl h
+  unfold serversOf finalServers at hkv
+  change kv ∈ (if _ then _ else _) at hkv
+  split at hkv
+  · exact fromSrvs kv hkv rt hrt hred
+  · split at hkv
+    · obtain ⟨y, hy, rfl⟩ := List.mem_map.mp hkv
+      split at hrt
+      · exact fromNew rt hrt
+      · exact fromSrvs y hy rt hrt hred
+    · rcases List.mem_append.mp hkv with h | h
+      · exact fromSrvs kv h rt hrt hred
+      · simp only [List.mem_singleton] at h
+        subst h
+        exact fromNew rt hrt
+
+
+
+/-- the routes of redirect address `rr.1` have been handed to a server that listens there
+    (inserted only if some name has a managed certificate — issue 4829), or queued for the
+    generated redirect server when nobody listens there -/
+def Placed (c : Config) (b : Bool) (st : LoopF) (rr : Addr × List Route) : Prop :=
+  (∃ y ∈ st.srvs, hasListener y.2.listen rr.1 = true ∧ catchAllRoute c ∈ y.2.routes ∧
+      (b = true → ∀ rt ∈ rr.2, rt ∈ y.2.routes)) ∨
+  ((∀ y ∈ st.srvs, hasListener y.2.listen rr.1 = false) ∧ rr.1 ∈ st.newAddrs ∧ ∀ rt ∈ rr.2, rt ∈ st.newRoutes)
+
+theorem receive_listen {c : Config} {b : Bool} {routes : List Route} {s : SrvOut} :
+    (receive c b routes s).listen = s.listen := rfl
+
+theorem stepF_placed_self {c : Config} {b : Bool} {π : Orders} {st : LoopF} {rr : Addr × List Route} :
+    Placed c b (stepF c b π st rr) rr := by
+  unfold stepF
+  split
+  · rename_i kv hfind
+    have hp := List.find?_some hfind
+    have hm := mem_pull.mp (List.mem_of_find?_eq_some hfind)
+    left
+    refine ⟨(kv.1, receive c b rr.2 kv.2), List.mem_map.mpr ⟨kv, hm, by simp⟩, by simpa [receive_listen] using hp, ?_, ?_⟩
+    · exact mem_receive.mpr (Or.inr (Or.inl rfl))
+    · intro hb rt hrt
+      exact mem_receive.mpr (Or.inr (Or.inr ⟨hb, hrt⟩))
+  · rename_i hfind
+    right
+    have hnone := List.find?_eq_none.mp hfind
+    refine ⟨?_, by simp, fun rt hrt => by simp [hrt]⟩
+    intro y hy
+    have := hnone y (mem_pull.mpr hy)
+    simpa using this
+
+theorem stepF_placed_mono {c : Config} {b : Bool} {π : Orders} {st : LoopF} {rr rr' : Addr × List Route}
+    (h : Placed c b st rr') : Placed c b (stepF c b π st rr) rr' := by
+  unfold stepF
+  split
+  · rename_i kv hfind
+    rcases h with ⟨y, hy, h1, h2, h3⟩ | ⟨h1, h2, h3⟩
+    · left
+      by_cases hk : y.1 = kv.1
+      · refine ⟨(y.1, receive c b rr.2 y.2), List.mem_map.mpr ⟨y, hy, by simp [hk]⟩, by simpa [receive_listen] using h1,
+          mem_receive.mpr (Or.inl h2), fun hb rt hrt => mem_receive.mpr (Or.inl (h3 hb rt hrt))⟩
+      · exact ⟨y, List.mem_map.mpr ⟨y, hy, by simp [hk]⟩, h1, h2, h3⟩
+    · right
+      refine ⟨?_, h2, h3⟩
+      intro y hy
+      obtain ⟨y0, hy0, rfl⟩ := List.mem_map.mp hy
+      split
+      · simpa [receive_listen] using h1 y0 hy0
+      · exact h1 y0 hy0
+  · rcases h with h | ⟨h1, h2, h3⟩
+    · exact Or.inl h
+    · exact Or.inr ⟨h1, by simp [h2], fun rt hrt => by simp [h3 rt hrt]⟩
+
+theorem foldF_placed {c : Config} {b : Bool} {π : Orders} :
+    ∀ {l : RS} {st : LoopF} {rr : Addr × List Route},
+      (rr ∈ l ∨ Placed c b st rr) → Placed c b (l.foldl (stepF c b π) st) rr
+  | [], _, _, h => by
+    rcases h with h | h
+    · simp at h
+    · exact h
+  | rr0 :: l, st, rr, h => by
+    simp only [List.foldl_cons]
+    apply foldF_placed (l := l)
+    rcases h with h | h
+    · rcases List.mem_cons.mp h with rfl | h
+      · exact Or.inr stepF_placed_self
+      · exact Or.inl h
+    · exact Or.inr (stepF_placed_mono h)
+
+theorem loopF_placed (c : Config) (b : Bool) (π : Orders) (rs : RS) {rr : Addr × List Route} (h : rr ∈ rs) :
+    Placed c b (loopF c b π rs) rr := by
+  unfold loopF
+  exact foldF_placed (Or.inl (mem_pull.mpr h))
+
+theorem hasListener_redirAddr_self (c : Config) (a : Addr) : hasListener [redirAddr c a] (redirAddr c a) = true := by
+  simp [hasListener, redirAddr]
+
+theorem hasListener_of_mem {l : List Addr} {R : Addr} (h : R ∈ l) (hR : R.sp = R.ep) : hasListener l R = true := by
+  simp only [hasListener, List.any_eq_true, Bool.and_eq_true, decide_eq_true_eq]
+  exact ⟨R, h, ⟨rfl, by omega⟩, by omega⟩
+
+/-- **where the redirect routes end up** (no user server carries the reserved name): every
+    route of the redirect map sits in a final server that listens on its redirect address —
+    provided some name has a managed certificate or no configured server listens there -/
+theorem serversOf_redir_complete (c : Config) (P : Params) (π : Orders) (hres : c.reserved = none)
+    {a : Addr} {rt : Route} (h : assocMem (rsOf c P π) (redirAddr c a) rt)
+    (hins : (certsOf c P π).isEmpty = false ∨ ∀ s ∈ c.servers, hasListener s.listen (redirAddr c a) = false) :
+    ∃ kv ∈ serversOf c P π, hasListener kv.2.listen (redirAddr c a) = true ∧ rt ∈ kv.2.routes := by
+  obtain ⟨routes, hm, hrt⟩ := h
+  have hp := loopF_placed c (!(certsOf c P π).isEmpty) π (rsOf c P π) hm
+  have inv := loopF_inv c (!(certsOf c P π).isEmpty) π (rsOf c P π)
+  have hsv : serversOf c P π = finalServers c π (loopF c (!(certsOf c P π).isEmpty) π (rsOf c P π)) := rfl
+  rcases hp with ⟨y, hy, h1, _, h3⟩ | ⟨h1, h2, h3⟩
+  · -- an existing server listens on the redirect address
+    have hb : (!(certsOf c P π).isEmpty) = true := by
+      rcases hins with h | h
+      · simp [h]
+      · exfalso
+        obtain ⟨x, hx, hrel⟩ := inv.fwd y hy
+        have hx' := mem_indexed hx
+        obtain ⟨s, hs, hsx⟩ := List.mem_map.mp hx'
+        have := h s hs
+        rw [hrel.listen, ← hsx] at h1
+        simp only [srvInit] at h1
+        rw [this] at h1; cases h1
+    have hin : rt ∈ y.2.routes := h3 hb rt hrt
+    rw [hsv]
+    unfold finalServers
+    split
+    · exact ⟨y, hy, h1, hin⟩
+    · rw [hres]
+      exact ⟨y, List.mem_append.mpr (Or.inl hy), h1, hin⟩
+  · -- nobody listens there: the generated redirect server does
+    rw [hsv]
+    unfold finalServers
+    split
+    · rename_i he
+      simp only [List.isEmpty_iff] at he
+      rw [he] at h2; simp at h2
+    · rw [hres]
+      refine ⟨(c.servers.length, newServer c π (loopF c (!(certsOf c P π).isEmpty) π (rsOf c P π))),
+        List.mem_append.mpr (Or.inr (by simp)), ?_, ?_⟩
+      · apply hasListener_of_mem
+        · simp only [newServer]
+          exact mem_pullKeys.mpr h2
+        · rfl
+      · simp only [newServer, List.mem_append]
+        exact Or.inl (h3 rt hrt)
+
+
+
+/-! ### `if len(uniqueDomainsForCerts) != 0` (issue 4829): what happens when it is false -/
+
+/-- with no managed names, existing servers receive catch-all redirects only -/
+def NoIns (c : Config) (s0 : List (Nat × SrvOut)) (st : LoopF) : Prop :=
+  ∀ y ∈ st.srvs, ∃ x ∈ s0, ∀ rt ∈ y.2.routes, rt ∈ x.2.routes ∨ rt = catchAllRoute c
+
+theorem NoIns.step {c : Config} {s0 : List (Nat × SrvOut)} {st : LoopF} {π : Orders} {rr : Addr × List Route}
+    (h : NoIns c s0 st) : NoIns c s0 (stepF c false π st rr) := by
+  unfold stepF
+  split
+  · intro y hy
+    obtain ⟨y0, hy0, rfl⟩ := List.mem_map.mp hy
+    obtain ⟨x, hx, hs⟩ := h y0 hy0
+    refine ⟨x, hx, ?_⟩
+    split
+    · intro rt hrt
+      rcases mem_receive.mp hrt with h1 | h1 | ⟨h1, _⟩
+      · exact hs rt h1
+      · exact Or.inr h1
+      · cases h1
+    · exact hs
+  · exact h
+
+theorem NoIns.foldl {c : Config} {s0 : List (Nat × SrvOut)} {π : Orders} :
+    ∀ {l : RS} {st : LoopF}, NoIns c s0 st → NoIns c s0 (l.foldl (stepF c false π) st)
+  | [], _, h => h
+  | _ :: l, _, h => by
+    simp only [List.foldl_cons]
+    exact NoIns.foldl (l := l) h.step
+
+/-- no address is queued for the generated redirect server as long as every redirect address
+    has a configured listener -/
+theorem newAddrs_nil {c : Config} {rs : RS} {s0 : List (Nat × SrvOut)} {b : Bool} {π : Orders} :
+    ∀ {l : RS} {st : LoopF}, FInv c rs s0 st → (∀ rr ∈ l, ∀ rt ∈ rr.2, assocMem rs rr.1 rt) →
+      (∀ rr ∈ l, ∃ x ∈ s0, hasListener x.2.listen rr.1 = true) → st.newAddrs = [] →
+        (l.foldl (stepF c b π) st).newAddrs = []
+  | [], _, _, _, _, h => h
+  | rr :: l, st, inv, hl, hrecv, h => by
+    simp only [List.foldl_cons]
+    apply newAddrs_nil (l := l) (inv.step (hl rr (by simp))) (fun rr' h' => hl rr' (List.mem_cons_of_mem _ h'))
+      (fun rr' h' => hrecv rr' (List.mem_cons_of_mem _ h'))
+    unfold stepF
+    split
+    · exact h
+    · rename_i hfind
+      exfalso
+      obtain ⟨x, hx, hlx⟩ := hrecv rr (by simp)
+      obtain ⟨y, hy, hrel⟩ := inv.bwd x hx
+      have := List.find?_eq_none.mp hfind y (mem_pull.mpr hy)
+      rw [hrel.listen] at this
+      exact this hlx
+
+/-- **the defect behind `redirect_exists_full_fails`, in general**: if no name ends up with
+    a managed certificate and every redirect address already has a configured listener, then
+    the only redirect routes anywhere are catch-alls to the HTTPS port — for every iteration
+    order, whatever ports the names are served on -/
+theorem only_catchAll_when_no_certs (c : Config) (P : Params) (π : Orders)
+    (hc : (certsOf c P π).isEmpty = true)
+    (hrecv : ∀ s ∈ c.servers, redirOn c s = true → ∀ a ∈ s.listen,
+      ∃ s' ∈ c.servers, hasListener s'.listen (redirAddr c a) = true) :
+    ∀ kv ∈ serversOf c P π, ∀ rt ∈ kv.2.routes, rt.isRedir = true → rt = catchAllRoute c := by
+  have hsv : serversOf c P π = finalServers c π (loopF c false π (rsOf c P π)) := by
+    unfold serversOf rsOf; rw [hc]; rfl
+  have hno : NoIns c (initSrvs c) (loopF c false π (rsOf c P π)) := by
+    unfold loopF
+    exact NoIns.foldl (fun y hy => ⟨y, hy, fun rt h => Or.inl h⟩)
+  have hnil : (loopF c false π (rsOf c P π)).newAddrs = [] := by
+    unfold loopF
+    apply newAddrs_nil (FInv.init c (rsOf c P π) _)
+    · intro rr hrr rt hrt
+      exact ⟨rr.2, mem_pull.mp hrr, hrt⟩
+    · intro rr hrr
+      have hm := mem_pull.mp hrr
+      have hne : rr.2 ≠ [] := by
+        -- every key of the redirect map has at least one route
+        have : NonEmptyVals (rsOf c P π) := by
+          unfold rsOf redirServers
+          generalize pull π.addr _ = l
+          suffices ∀ (l : DBA) (m : RS), NonEmptyVals m → NonEmptyVals (l.foldl (rsStep c) m) from
+            this l [] (fun _ _ h => by simp at h)
+          intro l
+          induction l with
+          | nil => intro m h; exact h
+          | cons ad l ih => intro m h; exact ih _ (nonEmptyVals_append h)
+        exact this rr.1 rr.2 hm
+      cases hr : rr.2 with
+      | nil => exact absurd hr hne
+      | cons rt _ =>
+        obtain ⟨a, doms, h1, _, h3, h4⟩ := rsOf_sound c P π (rt := rt) ⟨rr.2, hm, by rw [hr]; simp⟩
+        cases doms with
+        | nil => exact absurd rfl h3
+        | cons d _ =>
+          obtain ⟨s, hs, hron, _, ha⟩ := h4 d (by simp)
+          obtain ⟨s', hs', hl⟩ := hrecv s hs hron a ha
+          obtain ⟨i, hi⟩ := exists_indexed 0 (List.mem_map.mpr ⟨s', hs', rfl⟩ : srvInit c s' ∈ c.servers.map (srvInit c))
+          exact ⟨(i, srvInit c s'), hi, by rw [h1]; exact hl⟩
+    · rfl
+  intro kv hkv rt hrt hred
+  rw [hsv] at hkv
+  unfold finalServers at hkv
+  simp only [hnil, List.isEmpty_nil, if_true] at hkv
+  obtain ⟨x, hx, hs⟩ := hno kv hkv
+  rcases hs rt hrt with h | h
+  · rw [initSrvs_user hx rt h] at hred; cases hred
+  · exact h
+
+theorem certs_only_qualifying' {c : Config} {P : Params} {π : Orders} {d : Name} (h : d ∈ certsOf c P π) :
+    qualifies c P d = true := ((mem_certsOf c P π d).mp h).1
+
+theorem servedPort_mem {c : Config} {d : Name} {q : Nat} (h : servedPort c d q = true) :
+    q ∈ c.servers.flatMap fun s => s.listen.map (·.sp) := by
+  simp only [servedPort, List.any_eq_true, Bool.and_eq_true, decide_eq_true_eq] at h
+  obtain ⟨s, hs, _, a, ha, rfl⟩ := h
+  exact List.mem_flatMap.mpr ⟨s, hs, List.mem_map.mpr ⟨a, ha, rfl⟩⟩
+
+theorem qualifies_mem {c : Config} {P : Params} {d : Name} (h : qualifies c P d = true) :
+    d ∈ c.servers.flatMap allHosts := by
+  simp only [qualifies, List.any_eq_true, qualifiesOn, Bool.and_eq_true, hosts] at h
+  obtain ⟨s, hs, ⟨⟨_, hh⟩, _⟩⟩ := h
+  exact List.mem_flatMap.mpr ⟨s, hs, by simpa using hh.1⟩
+
+
+
+/-! ### the automation policies do not depend on the iteration orders -/
+
+def markIf (P : Params) (pols0 : List Policy) (ps : List Policy) (d : Name) : List Policy :=
+  if listsName pols0 d then markPolicy P d ps else ps
+
+def predI (P : Params) (pols0 : List Policy) (d : Name) : Bool :=
+  !listsName pols0 d && !P.ts d && (!P.pub d || (P.ip d && pols0.isEmpty))
+
+def predT (P : Params) (pols0 : List Policy) (d : Name) : Bool := !listsName pols0 d && P.ts d
+
+theorem loopB_closed (P : Params) (pols0 : List Policy) :
+    ∀ (ds : List Name) (b : LoopB), b.pols.map (·.subjects) = pols0.map (·.subjects) →
+      (ds.foldl (stepB P pols0.isEmpty) b).pols = ds.foldl (markIf P pols0) b.pols ∧
+      (ds.foldl (stepB P pols0.isEmpty) b).internal = b.internal ++ ds.filter (predI P pols0) ∧
+      (ds.foldl (stepB P pols0.isEmpty) b).tailscale = b.tailscale ++ ds.filter (predT P pols0)
+  | [], b, _ => by simp
+  | d :: ds, b, hb => by
+    simp only [List.foldl_cons]
+    have hl : (b.pols.any fun p => p.subjects.contains d) = listsName pols0 d := listsName_congr hb d
+    have key : stepB P pols0.isEmpty b d =
+        ⟨markIf P pols0 b.pols d,
+         if predI P pols0 d then b.internal ++ [d] else b.internal,
+         if predT P pols0 d then b.tailscale ++ [d] else b.tailscale,
+         if predT P pols0 d then b.uniq.filter (· ≠ d) else b.uniq⟩ := by
+      unfold stepB markIf predI predT
+      rw [hl]
+      cases h1 : listsName pols0 d <;> cases h2 : P.ts d <;> cases h3 : P.pub d <;> cases h4 : P.ip d <;>
+        cases h5 : pols0.isEmpty <;> simp
+    have hb' : (stepB P pols0.isEmpty b d).pols.map (·.subjects) = pols0.map (·.subjects) := by
+      rw [key]; simp only [markIf]
+      split
+      · rw [markPolicy_subjects]; exact hb
+      · exact hb
+    obtain ⟨h1, h2, h3⟩ := loopB_closed P pols0 ds _ hb'
+    rw [h1, h2, h3, key]
+    refine ⟨rfl, ?_, ?_⟩
+    · simp only [List.filter_cons]
+      split <;> simp
+    · simp only [List.filter_cons]
+      split <;> simp
+
+def markOne (P : Params) (p : Policy) : Policy :=
+  if p.issuers.isEmpty && allInternal P p then { p with issuers := [Issuer.internal] } else p
+
+theorem markOne_idem (P : Params) (p : Policy) : markOne P (markOne P p) = markOne P p := by
+  unfold markOne
+  split
+  · simp [allInternal]
+  · rename_i h; simp [h]
+
+theorem markOne_subjects (P : Params) (p : Policy) : (markOne P p).subjects = p.subjects := by
+  unfold markOne; split <;> rfl
+
+theorem markPolicy_cons (P : Params) (d : Name) (p : Policy) (ps : List Policy) :
+    markPolicy P d (p :: ps) = if p.subjects.contains d then markOne P p :: ps else p :: markPolicy P d ps := rfl
+
+theorem markPolicy_comm (P : Params) (d e : Name) :
+    ∀ ps : List Policy, markPolicy P d (markPolicy P e ps) = markPolicy P e (markPolicy P d ps)
+  | [] => rfl
+  | p :: ps => by
+    cases he : p.subjects.contains e <;> cases hd : p.subjects.contains d <;>
+      simp only [markPolicy_cons, he, hd, if_true, if_false, Bool.false_eq_true, markOne_subjects, markOne_idem,
+        markPolicy_comm P d e ps]
+
+theorem markIf_comm (P : Params) (pols0 : List Policy) (ps : List Policy) (d e : Name) :
+    markIf P pols0 (markIf P pols0 ps d) e = markIf P pols0 (markIf P pols0 ps e) d := by
+  unfold markIf
+  split <;> split <;> first | rfl | exact markPolicy_comm P e d ps
+
+theorem nodup_addSet {l : List Name} {d : Name} (h : l.Nodup) : (addSet l d).Nodup := by
+  unfold addSet
+  split
+  · exact h
+  · rename_i hc
+    rw [List.nodup_append]
+    refine ⟨h, by simp, ?_⟩
+    intro a ha b hb
+    simp only [List.mem_singleton] at hb
+    subst hb
+    intro e; subst e
+    exact hc (by simpa using ha)
+
+theorem nodup_foldl_addSet : ∀ {ds l : List Name}, l.Nodup → (ds.foldl addSet l).Nodup
+  | [], _, h => h
+  | _ :: ds, _, h => by
+    simp only [List.foldl_cons]
+    exact nodup_foldl_addSet (ds := ds) (nodup_addSet h)
+
+theorem nodup_mainLoop_uniq (c : Config) (P : Params) :
+    ∀ {l : List (Nat × Server)} {st : List Name × RD}, st.1.Nodup → (l.foldl (mainStep c P) st).1.Nodup
+  | [], _, h => h
+  | ks :: l, st, h => by
+    simp only [List.foldl_cons]
+    apply nodup_mainLoop_uniq c P (l := l)
+    unfold mainStep
+    split
+    · exact nodup_foldl_addSet h
+    · exact h
+
+theorem uniq_perm (c : Config) (P : Params) (π π' : Orders) : (mainLoop c P π).1.Perm (mainLoop c P π').1 := by
+  have h1 : (mainLoop c P π).1.Nodup := by unfold mainLoop; exact nodup_mainLoop_uniq c P List.nodup_nil
+  have h2 : (mainLoop c P π').1.Nodup := by unfold mainLoop; exact nodup_mainLoop_uniq c P List.nodup_nil
+  rw [List.perm_ext_iff_of_nodup h1 h2]
+  intro d
+  rw [mem_uniq_iff, mem_uniq_iff]
+
+theorem processed_perm (c : Config) (P : Params) (π π' : Orders) :
+    (pullKeys π.uniq (mainLoop c P π).1).Perm (pullKeys π'.uniq (mainLoop c P π').1) :=
+  ((pullKeys_perm _ _).trans (uniq_perm c P π π')).trans (pullKeys_perm _ _).symm
+
+theorem loopB_pols_eq (c : Config) (P : Params) (π π' : Orders) :
+    (loopB P c.policies π (mainLoop c P π).1).pols = (loopB P c.policies π' (mainLoop c P π').1).pols := by
+  unfold loopB
+  rw [(loopB_closed P c.policies _ _ rfl).1, (loopB_closed P c.policies _ _ rfl).1]
+  exact List.Perm.foldl_eq' (processed_perm c P π π') (fun x _ y _ z => markIf_comm P c.policies z x y) _
+
+theorem loopB_internal_perm (c : Config) (P : Params) (π π' : Orders) :
+    (loopB P c.policies π (mainLoop c P π).1).internal.Perm (loopB P c.policies π' (mainLoop c P π').1).internal := by
+  unfold loopB
+  rw [(loopB_closed P c.policies _ _ rfl).2.1, (loopB_closed P c.policies _ _ rfl).2.1]
+  simpa using (processed_perm c P π π').filter _
+
+theorem loopB_tailscale_perm (c : Config) (P : Params) (π π' : Orders) :
+    (loopB P c.policies π (mainLoop c P π).1).tailscale.Perm (loopB P c.policies π' (mainLoop c P π').1).tailscale := by
+  unfold loopB
+  rw [(loopB_closed P c.policies _ _ rfl).2.2, (loopB_closed P c.policies _ _ rfl).2.2]
+  simpa using (processed_perm c P π π').filter _
+
+theorem samePolicy_refl (p : Policy) : samePolicy p p := ⟨List.Perm.refl _, rfl, rfl⟩
+
+theorem samePolicies_refl : ∀ l : List Policy, samePolicies l l
+  | [] => trivial
+  | p :: ps => ⟨samePolicy_refl p, samePolicies_refl ps⟩
+
+theorem supersetOf_perm {P : Params} {subs subs' : List Name} {ex ex' : Policy}
+    (h : subs.Perm subs') (he : ex.subjects.Perm ex'.subjects) : supersetOf P subs ex = supersetOf P subs' ex' := by
+  unfold supersetOf
+  rw [h.any_eq]
+  congr 1
+  funext s
+  exact he.any_eq
+
+theorem addPolicy_same {P : Params} {ap ap' : Policy} (ha : samePolicy ap ap') :
+    ∀ {pols pols' : List Policy}, samePolicies pols pols' → samePolicies (addPolicy P ap pols) (addPolicy P ap' pols')
+  | [], [], _ => ⟨ha, trivial⟩
+  | [], _ :: _, h => by cases h
+  | _ :: _, [], h => by cases h
+  | ex :: rest, ex' :: rest', h => by
+    obtain ⟨h1, h2⟩ := h
+    unfold addPolicy
+    rw [supersetOf_perm ha.1 h1.1, h1.1.length_eq, ha.1.length_eq]
+    split
+    · exact ⟨ha, h1, h2⟩
+    · exact ⟨h1, addPolicy_same ha h2⟩
+
+/-- the automation policies are the same (up to the order of the subjects of the implicit
+    internal / tailscale policies) for every iteration order -/
+theorem policies_same (c : Config) (P : Params) (π π' : Orders) :
+    samePolicies (policiesOf c P π) (policiesOf c P π') := by
+  unfold policiesOf createPolicies
+  rw [loopB_pols_eq c P π π']
+  have hi := loopB_internal_perm c P π π'
+  have ht := loopB_tailscale_perm c P π π'
+  generalize (loopB P c.policies π' (mainLoop c P π').1).pols = pols
+  have h1 : samePolicies
+      (withInternal P (baseOf (pols.map fillDefault)) (loopB P c.policies π (mainLoop c P π).1).internal (withBase P (pols.map fillDefault)))
+      (withInternal P (baseOf (pols.map fillDefault)) (loopB P c.policies π' (mainLoop c P π').1).internal (withBase P (pols.map fillDefault))) := by
+    unfold withInternal
+    have : (loopB P c.policies π (mainLoop c P π).1).internal.isEmpty = (loopB P c.policies π' (mainLoop c P π').1).internal.isEmpty := by
+      have := hi.length_eq
+      cases h1 : (loopB P c.policies π (mainLoop c P π).1).internal <;>
+        cases h2 : (loopB P c.policies π' (mainLoop c P π').1).internal <;> simp_all
+    rw [this]
+    split
+    · exact samePolicies_refl _
+    · apply addPolicy_same _ (samePolicies_refl _)
+      exact ⟨hi, rfl, rfl⟩
+  unfold withTailscale
+  have : (loopB P c.policies π (mainLoop c P π).1).tailscale.isEmpty = (loopB P c.policies π' (mainLoop c P π').1).tailscale.isEmpty := by
+    have := ht.length_eq
+    cases h1 : (loopB P c.policies π (mainLoop c P π).1).tailscale <;>
+      cases h2 : (loopB P c.policies π' (mainLoop c P π').1).tailscale <;> simp_all
+  rw [this]
+  split
+  · exact h1
+  · apply addPolicy_same _ h1
+    exact ⟨ht, rfl, rfl⟩
+
+
+
+/-! ### the configured servers keep their listeners; their flags do not depend on the orders -/
+
+def flagsOf (so : SrvOut) : List Addr × Bool × Nat := (so.listen, so.disabled, so.tls)
+
+theorem lookupSrv_indexed : ∀ (l : List SrvOut) (n k : Nat), n ≤ k → lookupSrv k (indexed l n) = l[k - n]?
+  | [], _, _, _ => by simp [indexed, lookupSrv]
+  | x :: xs, n, k, h => by
+    simp only [indexed, lookupSrv]
+    by_cases e : n = k
+    · subst e; simp
+    · rw [if_neg e, lookupSrv_indexed xs (n + 1) k (by omega)]
+      have : k - n = (k - (n + 1)) + 1 := by omega
+      rw [this]; simp
+
+theorem lookupSrv_map_flags (k : Nat) (f : Nat × SrvOut → Nat × SrvOut)
+    (hf : ∀ kv, (f kv).1 = kv.1 ∧ flagsOf (f kv).2 = flagsOf kv.2) :
+    ∀ l : List (Nat × SrvOut), (lookupSrv k (l.map f)).map flagsOf = (lookupSrv k l).map flagsOf
+  | [] => rfl
+  | kv :: rest => by
+    simp only [List.map_cons, lookupSrv, (hf kv).1]
+    split
+    · simp [(hf kv).2]
+    · exact lookupSrv_map_flags k f hf rest
+
+theorem stepF_flags (c : Config) (b : Bool) (π : Orders) (st : LoopF) (rr : Addr × List Route) (k : Nat) :
+    (lookupSrv k (stepF c b π st rr).srvs).map flagsOf = (lookupSrv k st.srvs).map flagsOf := by
+  unfold stepF
+  split
+  · apply lookupSrv_map_flags
+    intro kv
+    split <;> simp [flagsOf, receive]
+  · rfl
+
+theorem foldF_flags (c : Config) (b : Bool) (π : Orders) (k : Nat) :
+    ∀ (l : RS) (st : LoopF), (lookupSrv k (l.foldl (stepF c b π) st).srvs).map flagsOf = (lookupSrv k st.srvs).map flagsOf
+  | [], _ => rfl
+  | rr :: l, st => by
+    simp only [List.foldl_cons]
+    rw [foldF_flags c b π k l, stepF_flags]
+
+theorem lookupSrv_append_of_isSome {k : Nat} {l l' : List (Nat × SrvOut)} (h : (lookupSrv k l).isSome = true) :
+    lookupSrv k (l ++ l') = lookupSrv k l := by
+  induction l with
+  | nil => simp [lookupSrv] at h
+  | cons kv rest ih =>
+    simp only [List.cons_append, lookupSrv] at h ⊢
+    split
+    · rfl
+    · rename_i hk; simp only [hk, if_false] at h; exact ih h
+
+/-- **the configured servers' listeners and flags**, for every iteration order: a server
+    keeps its listen list; it is marked disabled exactly when it was disabled or listens only
+    on the HTTP port; it ends with TLS connection policies exactly by the rule `tlsOut` -/
+theorem server_flags (c : Config) (P : Params) (π : Orders) (hres : c.reserved = none) (k : Nat) (s : Server)
+    (hk : c.servers[k]? = some s) :
+    obsAt (phase1Result c P π) k flagsOf = some (s.listen, disabledOut c s, tlsOut c s) := by
+  unfold obsAt phase1Result
+  simp only
+  have h0 : (lookupSrv k (initSrvs c)).map flagsOf = some (s.listen, disabledOut c s, tlsOut c s) := by
+    unfold initSrvs
+    rw [lookupSrv_indexed _ 0 k (Nat.zero_le _)]
+    simp [hk, flagsOf, srvInit]
+  have h1 : (lookupSrv k (loopF c (!(certsOf c P π).isEmpty) π (rsOf c P π)).srvs).map flagsOf =
+      some (s.listen, disabledOut c s, tlsOut c s) := by
+    unfold loopF
+    rw [foldF_flags]
+    exact h0
+  change (lookupSrv k (finalServers c π (loopF c (!(certsOf c P π).isEmpty) π (rsOf c P π)))).map flagsOf = _
+  unfold finalServers
+  split
+  · exact h1
+  · rw [hres]
+    simp only
+    rw [lookupSrv_append_of_isSome]
+    · exact h1
+    · cases hl : lookupSrv k (loopF c (!(certsOf c P π).isEmpty) π (rsOf c P π)).srvs with
+      | none => rw [hl] at h1; simp at h1
+      | some => rfl
+
+
+
+/-! ### where the redirect routes are inserted -/
+
+def noHost (l : List Route) : Prop := ∀ r ∈ l, r.hasHost = false
+
+theorem lastHostIdx_append : ∀ (l1 l2 : List Route) (i : Nat) (acc : Option Nat),
+    lastHostIdx (l1 ++ l2) i acc = lastHostIdx l2 (i + l1.length) (lastHostIdx l1 i acc)
+  | [], l2, i, acc => by simp [lastHostIdx]
+  | r :: l1, l2, i, acc => by
+    simp only [List.cons_append, lastHostIdx, List.length_cons]
+    rw [lastHostIdx_append l1 l2]
+    congr 1; omega
+
+theorem lastHostIdx_noHost : ∀ {l : List Route} (i : Nat) (acc : Option Nat), noHost l → lastHostIdx l i acc = acc
+  | [], _, _, _ => rfl
+  | r :: l, i, acc, h => by
+    simp only [lastHostIdx, h r (by simp), Bool.false_eq_true, if_false]
+    exact lastHostIdx_noHost _ _ (fun r' hr' => h r' (List.mem_cons_of_mem _ hr'))
+
+/-- either no route has a host matcher, or the scan returns the position just after the last one -/
+theorem lastHostIdx_spec : ∀ (l : List Route) (i : Nat) (acc : Option Nat),
+    (lastHostIdx l i acc = acc ∧ noHost l) ∨
+    ∃ j, lastHostIdx l i acc = some (i + j + 1) ∧ j < l.length ∧ noHost (l.drop (j + 1))
+  | [], _, _ => Or.inl ⟨rfl, fun _ h => by simp at h⟩
+  | r :: l, i, acc => by
+    simp only [lastHostIdx]
+    rcases lastHostIdx_spec l (i + 1) (if r.hasHost then some (i + 1) else acc) with ⟨h1, h2⟩ | ⟨j, h1, h2, h3⟩
+    · by_cases hr : r.hasHost = true
+      · right
+        refine ⟨0, ?_, by simp, by simpa using h2⟩
+        rw [h1]; simp [hr]
+      · left
+        refine ⟨by rw [h1]; simp [hr], ?_⟩
+        intro r' hr'
+        rcases List.mem_cons.mp hr' with rfl | h
+        · simpa using hr
+        · exact h2 r' h
+    · right
+      refine ⟨j + 1, ?_, by simp; omega, by simpa using h3⟩
+      rw [h1]; congr 1; omega
+
+theorem findLast_spec (u : List Route) : findLast u ≤ u.length ∧ noHost (u.drop (findLast u)) := by
+  unfold findLast
+  rcases lastHostIdx_spec u 0 none with ⟨h1, h2⟩ | ⟨j, h1, h2, h3⟩
+  · rw [h1]; simp only [Nat.zero_le, List.drop_zero, true_and]; exact h2
+  · rw [h1]; simp only [Nat.zero_add]; exact ⟨by omega, h3⟩
+
+/-- the shape of a server's route list: the user routes `u`, cut at `findLast u`, with
+    redirect routes `mid` in the cut and redirect routes `cs` at the end -/
+def Shaped (u : List Route) (routes : List Route) : Prop :=
+  ∃ mid cs, routes = u.take (findLast u) ++ mid ++ u.drop (findLast u) ++ cs ∧
+    (∀ r ∈ mid, r.isRedir = true) ∧ (∀ r ∈ cs, r.isRedir = true)
+
+theorem noHost_of_redir {l : List Route} (h : ∀ r ∈ l, r.isRedir = true) : noHost l := by
+  intro r hr
+  have := h r hr
+  cases r with
+  | user => simp [Route.isRedir] at this
+  | redir => rfl
+
+theorem findLast_append_noHost (A X : List Route) (hX : noHost X) : findLast (A ++ X) = findLast A := by
+  unfold findLast
+  rw [lastHostIdx_append, lastHostIdx_noHost _ _ hX]
+
+theorem findLast_shaped {u mid cs : List Route} (hm : noHost mid) (hc : noHost cs) :
+    findLast (u.take (findLast u) ++ mid ++ u.drop (findLast u) ++ cs) = findLast u := by
+  have hd := (findLast_spec u).2
+  have hrest : noHost (mid ++ u.drop (findLast u) ++ cs) := by
+    intro r hr
+    simp only [List.mem_append] at hr
+    rcases hr with (h | h) | h
+    · exact hm r h
+    · exact hd r h
+    · exact hc r h
+  calc findLast (u.take (findLast u) ++ mid ++ u.drop (findLast u) ++ cs)
+      = findLast (u.take (findLast u) ++ (mid ++ u.drop (findLast u) ++ cs)) := by simp [List.append_assoc]
+    _ = findLast (u.take (findLast u)) := findLast_append_noHost _ _ hrest
+    _ = findLast (u.take (findLast u) ++ u.drop (findLast u)) := (findLast_append_noHost _ _ hd).symm
+    _ = findLast u := by rw [List.take_append_drop]
+
+theorem Shaped.receive {c : Config} {u : List Route} {s : SrvOut} {b : Bool} {routes : List Route}
+    (h : Shaped u s.routes) (hr : ∀ r ∈ routes, r.isRedir = true) : Shaped u (receive c b routes s).routes := by
+  obtain ⟨mid, cs, he, hm, hc⟩ := h
+  have hfl : findLast s.routes = findLast u := by
+    rw [he]; exact findLast_shaped (noHost_of_redir hm) (noHost_of_redir hc)
+  have hlen : (u.take (findLast u)).length = findLast u := by
+    simp [List.length_take, Nat.min_eq_left (findLast_spec u).1]
+  have hcatch : ∀ r ∈ cs ++ [catchAllRoute c], r.isRedir = true := by
+    intro r hr'
+    rcases List.mem_append.mp hr' with h | h
+    · exact hc r h
+    · simp only [List.mem_singleton] at h; subst h; rfl
+  unfold CaddyModel.C11.receive
+  cases b
+  · exact ⟨mid, cs ++ [catchAllRoute c], by simp [he, List.append_assoc], hm, hcatch⟩
+  · refine ⟨routes ++ mid, cs ++ [catchAllRoute c], ?_, ?_, hcatch⟩
+    · simp only [if_true, hfl]
+      have ht : s.routes.take (findLast u) = u.take (findLast u) := by
+        rw [he, List.append_assoc, List.append_assoc, List.take_left' hlen]
+      have hdr : s.routes.drop (findLast u) = mid ++ u.drop (findLast u) ++ cs := by
+        rw [he, List.append_assoc, List.append_assoc, List.drop_left' hlen]
+        simp [List.append_assoc]
+      rw [ht, hdr]
+      simp [List.append_assoc]
+    · intro r hr'
+      rcases List.mem_append.mp hr' with h | h
+      · exact hr r h
+      · exact hm r h
+
+theorem Shaped.init (u : List Route) : Shaped u u :=
+  ⟨[], [], by simp, fun _ h => by simp at h, fun _ h => by simp at h⟩
+
+/-- every current server is one of the initial servers with a shaped route list -/
+def ShapeInv (s0 : List (Nat × SrvOut)) (st : LoopF) : Prop :=
+  ∀ y ∈ st.srvs, ∃ x ∈ s0, y.1 = x.1 ∧ Shaped x.2.routes y.2.routes
+
+theorem ShapeInv.foldl {c : Config} {rs : RS} {s0 : List (Nat × SrvOut)} {b : Bool} {π : Orders} :
+    ∀ {l : RS} {st : LoopF}, ShapeInv s0 st → (∀ rr ∈ l, ∀ rt ∈ rr.2, ∃ R, assocMem rs R rt) →
+      (∀ R rt, assocMem rs R rt → rt.isRedir = true) → ShapeInv s0 (l.foldl (stepF c b π) st)
+  | [], _, h, _, _ => h
+  | rr :: l, st, h, hl, hred => by
+    simp only [List.foldl_cons]
+    apply ShapeInv.foldl (l := l) _ (fun rr' h' => hl rr' (List.mem_cons_of_mem _ h')) hred
+    unfold stepF
+    split
+    · intro y hy
+      obtain ⟨y0, hy0, rfl⟩ := List.mem_map.mp hy
+      obtain ⟨x, hx, hk, hs⟩ := h y0 hy0
+      refine ⟨x, hx, ?_⟩
+      split
+      · refine ⟨hk, hs.receive ?_⟩
+        intro r hr
+        obtain ⟨R, hR⟩ := hl rr (by simp) r hr
+        exact hred R r hR
+      · exact ⟨hk, hs⟩
+    · exact h
+
+theorem rsOf_isRedir (c : Config) (P : Params) (π : Orders) {R : Addr} {rt : Route}
+    (h : assocMem (rsOf c P π) R rt) : rt.isRedir = true := by
+  obtain ⟨a, doms, _, h2, _, _⟩ := rsOf_sound c P π h
+  rw [h2]; rfl
+
+/-- **position of the redirect routes**: in every configured server of the result (no user
+    server carries the reserved name) the route list is the user routes cut just after the
+    last route with a host matcher (at the top if there is none), redirect routes in the cut,
+    redirect routes at the end — so the inserted redirects come after every user route with a
+    host matcher and before the user's catch-all routes that follow -/
+theorem serversOf_shaped (c : Config) (P : Params) (π : Orders) (hres : c.reserved = none)
+    {kv : Nat × SrvOut} (hkv : kv ∈ serversOf c P π) (hk : kv.1 < c.servers.length) :
+    ∃ s ∈ c.servers, Shaped (userRoutes s.routes 0) kv.2.routes := by
+  have hinv : ShapeInv (initSrvs c) (loopF c (!(certsOf c P π).isEmpty) π (rsOf c P π)) := by
+    unfold loopF
+    apply ShapeInv.foldl (rs := rsOf c P π)
+    · intro y hy; exact ⟨y, hy, rfl, Shaped.init _⟩
+    · intro rr hrr rt hrt; exact ⟨rr.1, rr.2, mem_pull.mp hrr, hrt⟩
+    · intro R rt h; exact rsOf_isRedir c P π h
+  have fromSrvs : ∀ y ∈ (loopF c (!(certsOf c P π).isEmpty) π (rsOf c P π)).srvs,
+      ∃ s ∈ c.servers, Shaped (userRoutes s.routes 0) y.2.routes := by
+    intro y hy
+    obtain ⟨x, hx, _, hs⟩ := hinv y hy
+    obtain ⟨s, hs', hsx⟩ := List.mem_map.mp (mem_indexed hx)
+    refine ⟨s, hs', ?_⟩
+    rw [← hsx] at hs
+    exact hs
+  change kv ∈ finalServers c π _ at hkv
+  unfold finalServers at hkv
+  split at hkv
+  · exact fromSrvs kv hkv
+  · rw [hres] at hkv
+    rcases List.mem_append.mp hkv with h | h
+    · exact fromSrvs kv h
+    · simp only [List.mem_singleton] at h
+      subst h
+      simp at hk
+
+end CaddyModel.C11
